@@ -12795,3 +12795,5005 @@ let tokenize b =
   (match json_internalParseFlags pfuel b with
    | Some d -> t_run (S (length b)) pfuel d (t_init b) []
    | None -> None)
+
+type stoken = { st_value : bytes; st_depth : z; st_index : z;
+                st_iskey : bool; st_constrained : bool }
+
+(** val mk_scalar : bytes -> z -> z -> bool -> stoken **)
+
+let mk_scalar v depth index iskey =
+  { st_value = v; st_depth = depth; st_index = index; st_iskey = iskey;
+    st_constrained = true }
+
+(** val mk_punct : z -> stoken **)
+
+let mk_punct c =
+  { st_value = (c :: []); st_depth = Z0; st_index = Z0; st_iskey = false;
+    st_constrained = false }
+
+(** val consumed : bytes -> bytes -> bytes **)
+
+let consumed b rest =
+  firstn (sub (length b) (length rest)) b
+
+(** val g_tokens :
+    nat -> bytes -> z -> z -> bool -> (stoken list * bytes) option **)
+
+let rec g_tokens fuel b depth index iskey =
+  match fuel with
+  | O -> None
+  | S f ->
+    (match b with
+     | [] ->
+       (match g_value (S f) b with
+        | Some r ->
+          Some (((mk_scalar (consumed b r) depth index iskey) :: []), r)
+        | None -> None)
+     | z0 :: r ->
+       (match z0 with
+        | Zpos p ->
+          (match p with
+           | XI p0 ->
+             (match p0 with
+              | XI p1 ->
+                (match p1 with
+                 | XO p2 ->
+                   (match p2 with
+                    | XI p3 ->
+                      (match p3 with
+                       | XI p4 ->
+                         (match p4 with
+                          | XI p5 ->
+                            (match p5 with
+                             | XH ->
+                               let open_ =
+                                 mk_scalar ((Zpos (XI (XI (XO (XI (XI (XI
+                                   XH))))))) :: []) depth index iskey
+                               in
+                               (match skip_ws r with
+                                | [] ->
+                                  let rec members n0 b0 i acc =
+                                    match n0 with
+                                    | O -> None
+                                    | S n' ->
+                                      (match b0 with
+                                       | [] -> None
+                                       | z1 :: k ->
+                                         (match z1 with
+                                          | Zpos p6 ->
+                                            (match p6 with
+                                             | XO p7 ->
+                                               (match p7 with
+                                                | XI p8 ->
+                                                  (match p8 with
+                                                   | XO p9 ->
+                                                     (match p9 with
+                                                      | XO p10 ->
+                                                        (match p10 with
+                                                         | XO p11 ->
+                                                           (match p11 with
+                                                            | XH ->
+                                                              (match 
+                                                               g_string k with
+                                                               | Some r0 ->
+                                                                 let key =
+                                                                   mk_scalar
+                                                                    (consumed
+                                                                    b0 r0)
+                                                                    (Z.add
+                                                                    depth
+                                                                    (Zpos XH))
+                                                                    i true
+                                                                 in
+                                                                 (match 
+                                                                  skip_ws r0 with
+                                                                  | [] -> None
+                                                                  | z2 :: r' ->
+                                                                    (match z2 with
+                                                                    | Zpos p12 ->
+                                                                    (match p12 with
+                                                                    | XO p13 ->
+                                                                    (match p13 with
+                                                                    | XI p14 ->
+                                                                    (match p14 with
+                                                                    | XO p15 ->
+                                                                    (match p15 with
+                                                                    | XI p16 ->
+                                                                    (match p16 with
+                                                                    | XI p17 ->
+                                                                    (match p17 with
+                                                                    | XH ->
+                                                                    (match 
+                                                                    g_tokens
+                                                                    f
+                                                                    (skip_ws
+                                                                    r')
+                                                                    (Z.add
+                                                                    depth
+                                                                    (Zpos XH))
+                                                                    i false with
+                                                                    | Some p18 ->
+                                                                    let (
+                                                                    ts, r1) =
+                                                                    p18
+                                                                    in
+                                                                    (
+                                                                    match 
+                                                                    skip_ws r1 with
+                                                                    | [] ->
+                                                                    None
+                                                                    | z3 :: r'0 ->
+                                                                    (match z3 with
+                                                                    | Zpos p19 ->
+                                                                    (match p19 with
+                                                                    | XI p20 ->
+                                                                    (match p20 with
+                                                                    | XO p21 ->
+                                                                    (match p21 with
+                                                                    | XI p22 ->
+                                                                    (match p22 with
+                                                                    | XI p23 ->
+                                                                    (match p23 with
+                                                                    | XI p24 ->
+                                                                    (match p24 with
+                                                                    | XI p25 ->
+                                                                    (match p25 with
+                                                                    | XH ->
+                                                                    Some
+                                                                    ((app acc
+                                                                    (app
+                                                                    (key :: (
+                                                                    (mk_punct
+                                                                    (Zpos (XO
+                                                                    (XI (XO
+                                                                    (XI (XI
+                                                                    XH))))))) :: []))
+                                                                    (app ts
+                                                                    ((mk_punct
+                                                                    (Zpos (XI
+                                                                    (XO (XI
+                                                                    (XI (XI
+                                                                    (XI
+                                                                    XH)))))))) :: [])))),
+                                                                    r'0)
+                                                                    | _ ->
+                                                                    None)
+                                                                    | _ ->
+                                                                    None)
+                                                                    | _ ->
+                                                                    None)
+                                                                    | _ ->
+                                                                    None)
+                                                                    | _ ->
+                                                                    None)
+                                                                    | _ ->
+                                                                    None)
+                                                                    | XO p20 ->
+                                                                    (match p20 with
+                                                                    | XO p21 ->
+                                                                    (match p21 with
+                                                                    | XI p22 ->
+                                                                    (match p22 with
+                                                                    | XI p23 ->
+                                                                    (match p23 with
+                                                                    | XO p24 ->
+                                                                    (match p24 with
+                                                                    | XH ->
+                                                                    members
+                                                                    n'
+                                                                    (skip_ws
+                                                                    r'0)
+                                                                    (Z.add i
+                                                                    (Zpos XH))
+                                                                    (app acc
+                                                                    (app
+                                                                    (key :: (
+                                                                    (mk_punct
+                                                                    (Zpos (XO
+                                                                    (XI (XO
+                                                                    (XI (XI
+                                                                    XH))))))) :: []))
+                                                                    (app ts
+                                                                    ((mk_punct
+                                                                    (Zpos (XO
+                                                                    (XO (XI
+                                                                    (XI (XO
+                                                                    XH))))))) :: []))))
+                                                                    | _ ->
+                                                                    None)
+                                                                    | _ ->
+                                                                    None)
+                                                                    | _ ->
+                                                                    None)
+                                                                    | _ ->
+                                                                    None)
+                                                                    | _ ->
+                                                                    None)
+                                                                    | XH ->
+                                                                    None)
+                                                                    | _ ->
+                                                                    None))
+                                                                    | None ->
+                                                                    None)
+                                                                    | _ ->
+                                                                    None)
+                                                                    | _ ->
+                                                                    None)
+                                                                    | _ ->
+                                                                    None)
+                                                                    | _ ->
+                                                                    None)
+                                                                    | _ ->
+                                                                    None)
+                                                                    | _ ->
+                                                                    None)
+                                                                    | _ ->
+                                                                    None))
+                                                               | None -> None)
+                                                            | _ -> None)
+                                                         | _ -> None)
+                                                      | _ -> None)
+                                                   | _ -> None)
+                                                | _ -> None)
+                                             | _ -> None)
+                                          | _ -> None))
+                                  in members f [] Z0 (open_ :: [])
+                                | z1 :: r' ->
+                                  (match z1 with
+                                   | Z0 ->
+                                     let rec members n0 b0 i acc =
+                                       match n0 with
+                                       | O -> None
+                                       | S n' ->
+                                         (match b0 with
+                                          | [] -> None
+                                          | z2 :: k ->
+                                            (match z2 with
+                                             | Zpos p6 ->
+                                               (match p6 with
+                                                | XO p7 ->
+                                                  (match p7 with
+                                                   | XI p8 ->
+                                                     (match p8 with
+                                                      | XO p9 ->
+                                                        (match p9 with
+                                                         | XO p10 ->
+                                                           (match p10 with
+                                                            | XO p11 ->
+                                                              (match p11 with
+                                                               | XH ->
+                                                                 (match 
+                                                                  g_string k with
+                                                                  | Some r0 ->
+                                                                    let key =
+                                                                    mk_scalar
+                                                                    (consumed
+                                                                    b0 r0)
+                                                                    (Z.add
+                                                                    depth
+                                                                    (Zpos XH))
+                                                                    i true
+                                                                    in
+                                                                    (
+                                                                    match 
+                                                                    skip_ws r0 with
+                                                                    | [] ->
+                                                                    None
+                                                                    | z3 :: r'0 ->
+                                                                    (match z3 with
+                                                                    | Zpos p12 ->
+                                                                    (match p12 with
+                                                                    | XO p13 ->
+                                                                    (match p13 with
+                                                                    | XI p14 ->
+                                                                    (match p14 with
+                                                                    | XO p15 ->
+                                                                    (match p15 with
+                                                                    | XI p16 ->
+                                                                    (match p16 with
+                                                                    | XI p17 ->
+                                                                    (match p17 with
+                                                                    | XH ->
+                                                                    (match 
+                                                                    g_tokens
+                                                                    f
+                                                                    (skip_ws
+                                                                    r'0)
+                                                                    (Z.add
+                                                                    depth
+                                                                    (Zpos XH))
+                                                                    i false with
+                                                                    | Some p18 ->
+                                                                    let (
+                                                                    ts, r1) =
+                                                                    p18
+                                                                    in
+                                                                    (
+                                                                    match 
+                                                                    skip_ws r1 with
+                                                                    | [] ->
+                                                                    None
+                                                                    | z4 :: r'1 ->
+                                                                    (match z4 with
+                                                                    | Zpos p19 ->
+                                                                    (match p19 with
+                                                                    | XI p20 ->
+                                                                    (match p20 with
+                                                                    | XO p21 ->
+                                                                    (match p21 with
+                                                                    | XI p22 ->
+                                                                    (match p22 with
+                                                                    | XI p23 ->
+                                                                    (match p23 with
+                                                                    | XI p24 ->
+                                                                    (match p24 with
+                                                                    | XI p25 ->
+                                                                    (match p25 with
+                                                                    | XH ->
+                                                                    Some
+                                                                    ((app acc
+                                                                    (app
+                                                                    (key :: (
+                                                                    (mk_punct
+                                                                    (Zpos (XO
+                                                                    (XI (XO
+                                                                    (XI (XI
+                                                                    XH))))))) :: []))
+                                                                    (app ts
+                                                                    ((mk_punct
+                                                                    (Zpos (XI
+                                                                    (XO (XI
+                                                                    (XI (XI
+                                                                    (XI
+                                                                    XH)))))))) :: [])))),
+                                                                    r'1)
+                                                                    | _ ->
+                                                                    None)
+                                                                    | _ ->
+                                                                    None)
+                                                                    | _ ->
+                                                                    None)
+                                                                    | _ ->
+                                                                    None)
+                                                                    | _ ->
+                                                                    None)
+                                                                    | _ ->
+                                                                    None)
+                                                                    | XO p20 ->
+                                                                    (match p20 with
+                                                                    | XO p21 ->
+                                                                    (match p21 with
+                                                                    | XI p22 ->
+                                                                    (match p22 with
+                                                                    | XI p23 ->
+                                                                    (match p23 with
+                                                                    | XO p24 ->
+                                                                    (match p24 with
+                                                                    | XH ->
+                                                                    members
+                                                                    n'
+                                                                    (skip_ws
+                                                                    r'1)
+                                                                    (Z.add i
+                                                                    (Zpos XH))
+                                                                    (app acc
+                                                                    (app
+                                                                    (key :: (
+                                                                    (mk_punct
+                                                                    (Zpos (XO
+                                                                    (XI (XO
+                                                                    (XI (XI
+                                                                    XH))))))) :: []))
+                                                                    (app ts
+                                                                    ((mk_punct
+                                                                    (Zpos (XO
+                                                                    (XO (XI
+                                                                    (XI (XO
+                                                                    XH))))))) :: []))))
+                                                                    | _ ->
+                                                                    None)
+                                                                    | _ ->
+                                                                    None)
+                                                                    | _ ->
+                                                                    None)
+                                                                    | _ ->
+                                                                    None)
+                                                                    | _ ->
+                                                                    None)
+                                                                    | XH ->
+                                                                    None)
+                                                                    | _ ->
+                                                                    None))
+                                                                    | None ->
+                                                                    None)
+                                                                    | _ ->
+                                                                    None)
+                                                                    | _ ->
+                                                                    None)
+                                                                    | _ ->
+                                                                    None)
+                                                                    | _ ->
+                                                                    None)
+                                                                    | _ ->
+                                                                    None)
+                                                                    | _ ->
+                                                                    None)
+                                                                    | _ ->
+                                                                    None))
+                                                                  | None ->
+                                                                    None)
+                                                               | _ -> None)
+                                                            | _ -> None)
+                                                         | _ -> None)
+                                                      | _ -> None)
+                                                   | _ -> None)
+                                                | _ -> None)
+                                             | _ -> None))
+                                     in members f (Z0 :: r') Z0 (open_ :: [])
+                                   | Zpos p6 ->
+                                     (match p6 with
+                                      | XI p7 ->
+                                        (match p7 with
+                                         | XI p8 ->
+                                           let rec members n0 b0 i acc =
+                                             match n0 with
+                                             | O -> None
+                                             | S n' ->
+                                               (match b0 with
+                                                | [] -> None
+                                                | z2 :: k ->
+                                                  (match z2 with
+                                                   | Zpos p9 ->
+                                                     (match p9 with
+                                                      | XO p10 ->
+                                                        (match p10 with
+                                                         | XI p11 ->
+                                                           (match p11 with
+                                                            | XO p12 ->
+                                                              (match p12 with
+                                                               | XO p13 ->
+                                                                 (match p13 with
+                                                                  | XO p14 ->
+                                                                    (match p14 with
+                                                                    | XH ->
+                                                                    (match 
+                                                                    g_string k with
+                                                                    | Some r0 ->
+                                                                    let key =
+                                                                    mk_scalar
+                                                                    (consumed
+                                                                    b0 r0)
+                                                                    (Z.add
+                                                                    depth
+                                                                    (Zpos XH))
+                                                                    i true
+                                                                    in
+                                                                    (
+                                                                    match 
+                                                                    skip_ws r0 with
+                                                                    | [] ->
+                                                                    None
+                                                                    | z3 :: r'0 ->
+                                                                    (match z3 with
+                                                                    | Zpos p15 ->
+                                                                    (match p15 with
+                                                                    | XO p16 ->
+                                                                    (match p16 with
+                                                                    | XI p17 ->
+                                                                    (match p17 with
+                                                                    | XO p18 ->
+                                                                    (match p18 with
+                                                                    | XI p19 ->
+                                                                    (match p19 with
+                                                                    | XI p20 ->
+                                                                    (match p20 with
+                                                                    | XH ->
+                                                                    (match 
+                                                                    g_tokens
+                                                                    f
+                                                                    (skip_ws
+                                                                    r'0)
+                                                                    (Z.add
+                                                                    depth
+                                                                    (Zpos XH))
+                                                                    i false with
+                                                                    | Some p21 ->
+                                                                    let (
+                                                                    ts, r1) =
+                                                                    p21
+                                                                    in
+                                                                    (
+                                                                    match 
+                                                                    skip_ws r1 with
+                                                                    | [] ->
+                                                                    None
+                                                                    | z4 :: r'1 ->
+                                                                    (match z4 with
+                                                                    | Zpos p22 ->
+                                                                    (match p22 with
+                                                                    | XI p23 ->
+                                                                    (match p23 with
+                                                                    | XO p24 ->
+                                                                    (match p24 with
+                                                                    | XI p25 ->
+                                                                    (match p25 with
+                                                                    | XI p26 ->
+                                                                    (match p26 with
+                                                                    | XI p27 ->
+                                                                    (match p27 with
+                                                                    | XI p28 ->
+                                                                    (match p28 with
+                                                                    | XH ->
+                                                                    Some
+                                                                    ((app acc
+                                                                    (app
+                                                                    (key :: (
+                                                                    (mk_punct
+                                                                    (Zpos (XO
+                                                                    (XI (XO
+                                                                    (XI (XI
+                                                                    XH))))))) :: []))
+                                                                    (app ts
+                                                                    ((mk_punct
+                                                                    (Zpos (XI
+                                                                    (XO (XI
+                                                                    (XI (XI
+                                                                    (XI
+                                                                    XH)))))))) :: [])))),
+                                                                    r'1)
+                                                                    | _ ->
+                                                                    None)
+                                                                    | _ ->
+                                                                    None)
+                                                                    | _ ->
+                                                                    None)
+                                                                    | _ ->
+                                                                    None)
+                                                                    | _ ->
+                                                                    None)
+                                                                    | _ ->
+                                                                    None)
+                                                                    | XO p23 ->
+                                                                    (match p23 with
+                                                                    | XO p24 ->
+                                                                    (match p24 with
+                                                                    | XI p25 ->
+                                                                    (match p25 with
+                                                                    | XI p26 ->
+                                                                    (match p26 with
+                                                                    | XO p27 ->
+                                                                    (match p27 with
+                                                                    | XH ->
+                                                                    members
+                                                                    n'
+                                                                    (skip_ws
+                                                                    r'1)
+                                                                    (Z.add i
+                                                                    (Zpos XH))
+                                                                    (app acc
+                                                                    (app
+                                                                    (key :: (
+                                                                    (mk_punct
+                                                                    (Zpos (XO
+                                                                    (XI (XO
+                                                                    (XI (XI
+                                                                    XH))))))) :: []))
+                                                                    (app ts
+                                                                    ((mk_punct
+                                                                    (Zpos (XO
+                                                                    (XO (XI
+                                                                    (XI (XO
+                                                                    XH))))))) :: []))))
+                                                                    | _ ->
+                                                                    None)
+                                                                    | _ ->
+                                                                    None)
+                                                                    | _ ->
+                                                                    None)
+                                                                    | _ ->
+                                                                    None)
+                                                                    | _ ->
+                                                                    None)
+                                                                    | XH ->
+                                                                    None)
+                                                                    | _ ->
+                                                                    None))
+                                                                    | None ->
+                                                                    None)
+                                                                    | _ ->
+                                                                    None)
+                                                                    | _ ->
+                                                                    None)
+                                                                    | _ ->
+                                                                    None)
+                                                                    | _ ->
+                                                                    None)
+                                                                    | _ ->
+                                                                    None)
+                                                                    | _ ->
+                                                                    None)
+                                                                    | _ ->
+                                                                    None))
+                                                                    | None ->
+                                                                    None)
+                                                                    | _ ->
+                                                                    None)
+                                                                  | _ -> None)
+                                                               | _ -> None)
+                                                            | _ -> None)
+                                                         | _ -> None)
+                                                      | _ -> None)
+                                                   | _ -> None))
+                                           in members f ((Zpos (XI (XI
+                                                p8))) :: r') Z0 (open_ :: [])
+                                         | XO p8 ->
+                                           (match p8 with
+                                            | XI p9 ->
+                                              (match p9 with
+                                               | XI p10 ->
+                                                 (match p10 with
+                                                  | XI p11 ->
+                                                    (match p11 with
+                                                     | XI p12 ->
+                                                       (match p12 with
+                                                        | XI p13 ->
+                                                          let rec members n0 b0 i acc =
+                                                            match n0 with
+                                                            | O -> None
+                                                            | S n' ->
+                                                              (match b0 with
+                                                               | [] -> None
+                                                               | z2 :: k ->
+                                                                 (match z2 with
+                                                                  | Zpos p14 ->
+                                                                    (match p14 with
+                                                                    | XO p15 ->
+                                                                    (match p15 with
+                                                                    | XI p16 ->
+                                                                    (match p16 with
+                                                                    | XO p17 ->
+                                                                    (match p17 with
+                                                                    | XO p18 ->
+                                                                    (match p18 with
+                                                                    | XO p19 ->
+                                                                    (match p19 with
+                                                                    | XH ->
+                                                                    (match 
+                                                                    g_string k with
+                                                                    | Some r0 ->
+                                                                    let key =
+                                                                    mk_scalar
+                                                                    (consumed
+                                                                    b0 r0)
+                                                                    (Z.add
+                                                                    depth
+                                                                    (Zpos XH))
+                                                                    i true
+                                                                    in
+                                                                    (
+                                                                    match 
+                                                                    skip_ws r0 with
+                                                                    | [] ->
+                                                                    None
+                                                                    | z3 :: r'0 ->
+                                                                    (match z3 with
+                                                                    | Zpos p20 ->
+                                                                    (match p20 with
+                                                                    | XO p21 ->
+                                                                    (match p21 with
+                                                                    | XI p22 ->
+                                                                    (match p22 with
+                                                                    | XO p23 ->
+                                                                    (match p23 with
+                                                                    | XI p24 ->
+                                                                    (match p24 with
+                                                                    | XI p25 ->
+                                                                    (match p25 with
+                                                                    | XH ->
+                                                                    (match 
+                                                                    g_tokens
+                                                                    f
+                                                                    (skip_ws
+                                                                    r'0)
+                                                                    (Z.add
+                                                                    depth
+                                                                    (Zpos XH))
+                                                                    i false with
+                                                                    | Some p26 ->
+                                                                    let (
+                                                                    ts, r1) =
+                                                                    p26
+                                                                    in
+                                                                    (
+                                                                    match 
+                                                                    skip_ws r1 with
+                                                                    | [] ->
+                                                                    None
+                                                                    | z4 :: r'1 ->
+                                                                    (match z4 with
+                                                                    | Zpos p27 ->
+                                                                    (match p27 with
+                                                                    | XI p28 ->
+                                                                    (match p28 with
+                                                                    | XO p29 ->
+                                                                    (match p29 with
+                                                                    | XI p30 ->
+                                                                    (match p30 with
+                                                                    | XI p31 ->
+                                                                    (match p31 with
+                                                                    | XI p32 ->
+                                                                    (match p32 with
+                                                                    | XI p33 ->
+                                                                    (match p33 with
+                                                                    | XH ->
+                                                                    Some
+                                                                    ((app acc
+                                                                    (app
+                                                                    (key :: (
+                                                                    (mk_punct
+                                                                    (Zpos (XO
+                                                                    (XI (XO
+                                                                    (XI (XI
+                                                                    XH))))))) :: []))
+                                                                    (app ts
+                                                                    ((mk_punct
+                                                                    (Zpos (XI
+                                                                    (XO (XI
+                                                                    (XI (XI
+                                                                    (XI
+                                                                    XH)))))))) :: [])))),
+                                                                    r'1)
+                                                                    | _ ->
+                                                                    None)
+                                                                    | _ ->
+                                                                    None)
+                                                                    | _ ->
+                                                                    None)
+                                                                    | _ ->
+                                                                    None)
+                                                                    | _ ->
+                                                                    None)
+                                                                    | _ ->
+                                                                    None)
+                                                                    | XO p28 ->
+                                                                    (match p28 with
+                                                                    | XO p29 ->
+                                                                    (match p29 with
+                                                                    | XI p30 ->
+                                                                    (match p30 with
+                                                                    | XI p31 ->
+                                                                    (match p31 with
+                                                                    | XO p32 ->
+                                                                    (match p32 with
+                                                                    | XH ->
+                                                                    members
+                                                                    n'
+                                                                    (skip_ws
+                                                                    r'1)
+                                                                    (Z.add i
+                                                                    (Zpos XH))
+                                                                    (app acc
+                                                                    (app
+                                                                    (key :: (
+                                                                    (mk_punct
+                                                                    (Zpos (XO
+                                                                    (XI (XO
+                                                                    (XI (XI
+                                                                    XH))))))) :: []))
+                                                                    (app ts
+                                                                    ((mk_punct
+                                                                    (Zpos (XO
+                                                                    (XO (XI
+                                                                    (XI (XO
+                                                                    XH))))))) :: []))))
+                                                                    | _ ->
+                                                                    None)
+                                                                    | _ ->
+                                                                    None)
+                                                                    | _ ->
+                                                                    None)
+                                                                    | _ ->
+                                                                    None)
+                                                                    | _ ->
+                                                                    None)
+                                                                    | XH ->
+                                                                    None)
+                                                                    | _ ->
+                                                                    None))
+                                                                    | None ->
+                                                                    None)
+                                                                    | _ ->
+                                                                    None)
+                                                                    | _ ->
+                                                                    None)
+                                                                    | _ ->
+                                                                    None)
+                                                                    | _ ->
+                                                                    None)
+                                                                    | _ ->
+                                                                    None)
+                                                                    | _ ->
+                                                                    None)
+                                                                    | _ ->
+                                                                    None))
+                                                                    | None ->
+                                                                    None)
+                                                                    | _ ->
+                                                                    None)
+                                                                    | _ ->
+                                                                    None)
+                                                                    | _ ->
+                                                                    None)
+                                                                    | _ ->
+                                                                    None)
+                                                                    | _ ->
+                                                                    None)
+                                                                    | _ ->
+                                                                    None)
+                                                                  | _ -> None))
+                                                          in members f ((Zpos
+                                                               (XI (XO (XI
+                                                               (XI (XI (XI
+                                                               (XI
+                                                               p13)))))))) :: r')
+                                                               Z0
+                                                               (open_ :: [])
+                                                        | XO p13 ->
+                                                          let rec members n0 b0 i acc =
+                                                            match n0 with
+                                                            | O -> None
+                                                            | S n' ->
+                                                              (match b0 with
+                                                               | [] -> None
+                                                               | z2 :: k ->
+                                                                 (match z2 with
+                                                                  | Zpos p14 ->
+                                                                    (match p14 with
+                                                                    | XO p15 ->
+                                                                    (match p15 with
+                                                                    | XI p16 ->
+                                                                    (match p16 with
+                                                                    | XO p17 ->
+                                                                    (match p17 with
+                                                                    | XO p18 ->
+                                                                    (match p18 with
+                                                                    | XO p19 ->
+                                                                    (match p19 with
+                                                                    | XH ->
+                                                                    (match 
+                                                                    g_string k with
+                                                                    | Some r0 ->
+                                                                    let key =
+                                                                    mk_scalar
+                                                                    (consumed
+                                                                    b0 r0)
+                                                                    (Z.add
+                                                                    depth
+                                                                    (Zpos XH))
+                                                                    i true
+                                                                    in
+                                                                    (
+                                                                    match 
+                                                                    skip_ws r0 with
+                                                                    | [] ->
+                                                                    None
+                                                                    | z3 :: r'0 ->
+                                                                    (match z3 with
+                                                                    | Zpos p20 ->
+                                                                    (match p20 with
+                                                                    | XO p21 ->
+                                                                    (match p21 with
+                                                                    | XI p22 ->
+                                                                    (match p22 with
+                                                                    | XO p23 ->
+                                                                    (match p23 with
+                                                                    | XI p24 ->
+                                                                    (match p24 with
+                                                                    | XI p25 ->
+                                                                    (match p25 with
+                                                                    | XH ->
+                                                                    (match 
+                                                                    g_tokens
+                                                                    f
+                                                                    (skip_ws
+                                                                    r'0)
+                                                                    (Z.add
+                                                                    depth
+                                                                    (Zpos XH))
+                                                                    i false with
+                                                                    | Some p26 ->
+                                                                    let (
+                                                                    ts, r1) =
+                                                                    p26
+                                                                    in
+                                                                    (
+                                                                    match 
+                                                                    skip_ws r1 with
+                                                                    | [] ->
+                                                                    None
+                                                                    | z4 :: r'1 ->
+                                                                    (match z4 with
+                                                                    | Zpos p27 ->
+                                                                    (match p27 with
+                                                                    | XI p28 ->
+                                                                    (match p28 with
+                                                                    | XO p29 ->
+                                                                    (match p29 with
+                                                                    | XI p30 ->
+                                                                    (match p30 with
+                                                                    | XI p31 ->
+                                                                    (match p31 with
+                                                                    | XI p32 ->
+                                                                    (match p32 with
+                                                                    | XI p33 ->
+                                                                    (match p33 with
+                                                                    | XH ->
+                                                                    Some
+                                                                    ((app acc
+                                                                    (app
+                                                                    (key :: (
+                                                                    (mk_punct
+                                                                    (Zpos (XO
+                                                                    (XI (XO
+                                                                    (XI (XI
+                                                                    XH))))))) :: []))
+                                                                    (app ts
+                                                                    ((mk_punct
+                                                                    (Zpos (XI
+                                                                    (XO (XI
+                                                                    (XI (XI
+                                                                    (XI
+                                                                    XH)))))))) :: [])))),
+                                                                    r'1)
+                                                                    | _ ->
+                                                                    None)
+                                                                    | _ ->
+                                                                    None)
+                                                                    | _ ->
+                                                                    None)
+                                                                    | _ ->
+                                                                    None)
+                                                                    | _ ->
+                                                                    None)
+                                                                    | _ ->
+                                                                    None)
+                                                                    | XO p28 ->
+                                                                    (match p28 with
+                                                                    | XO p29 ->
+                                                                    (match p29 with
+                                                                    | XI p30 ->
+                                                                    (match p30 with
+                                                                    | XI p31 ->
+                                                                    (match p31 with
+                                                                    | XO p32 ->
+                                                                    (match p32 with
+                                                                    | XH ->
+                                                                    members
+                                                                    n'
+                                                                    (skip_ws
+                                                                    r'1)
+                                                                    (Z.add i
+                                                                    (Zpos XH))
+                                                                    (app acc
+                                                                    (app
+                                                                    (key :: (
+                                                                    (mk_punct
+                                                                    (Zpos (XO
+                                                                    (XI (XO
+                                                                    (XI (XI
+                                                                    XH))))))) :: []))
+                                                                    (app ts
+                                                                    ((mk_punct
+                                                                    (Zpos (XO
+                                                                    (XO (XI
+                                                                    (XI (XO
+                                                                    XH))))))) :: []))))
+                                                                    | _ ->
+                                                                    None)
+                                                                    | _ ->
+                                                                    None)
+                                                                    | _ ->
+                                                                    None)
+                                                                    | _ ->
+                                                                    None)
+                                                                    | _ ->
+                                                                    None)
+                                                                    | XH ->
+                                                                    None)
+                                                                    | _ ->
+                                                                    None))
+                                                                    | None ->
+                                                                    None)
+                                                                    | _ ->
+                                                                    None)
+                                                                    | _ ->
+                                                                    None)
+                                                                    | _ ->
+                                                                    None)
+                                                                    | _ ->
+                                                                    None)
+                                                                    | _ ->
+                                                                    None)
+                                                                    | _ ->
+                                                                    None)
+                                                                    | _ ->
+                                                                    None))
+                                                                    | None ->
+                                                                    None)
+                                                                    | _ ->
+                                                                    None)
+                                                                    | _ ->
+                                                                    None)
+                                                                    | _ ->
+                                                                    None)
+                                                                    | _ ->
+                                                                    None)
+                                                                    | _ ->
+                                                                    None)
+                                                                    | _ ->
+                                                                    None)
+                                                                  | _ -> None))
+                                                          in members f ((Zpos
+                                                               (XI (XO (XI
+                                                               (XI (XI (XI
+                                                               (XO
+                                                               p13)))))))) :: r')
+                                                               Z0
+                                                               (open_ :: [])
+                                                        | XH ->
+                                                          Some
+                                                            ((open_ :: (
+                                                            (mk_punct (Zpos
+                                                              (XI (XO (XI (XI
+                                                              (XI (XI
+                                                              XH)))))))) :: [])),
+                                                            r'))
+                                                     | XO p12 ->
+                                                       let rec members n0 b0 i acc =
+                                                         match n0 with
+                                                         | O -> None
+                                                         | S n' ->
+                                                           (match b0 with
+                                                            | [] -> None
+                                                            | z2 :: k ->
+                                                              (match z2 with
+                                                               | Zpos p13 ->
+                                                                 (match p13 with
+                                                                  | XO p14 ->
+                                                                    (match p14 with
+                                                                    | XI p15 ->
+                                                                    (match p15 with
+                                                                    | XO p16 ->
+                                                                    (match p16 with
+                                                                    | XO p17 ->
+                                                                    (match p17 with
+                                                                    | XO p18 ->
+                                                                    (match p18 with
+                                                                    | XH ->
+                                                                    (match 
+                                                                    g_string k with
+                                                                    | Some r0 ->
+                                                                    let key =
+                                                                    mk_scalar
+                                                                    (consumed
+                                                                    b0 r0)
+                                                                    (Z.add
+                                                                    depth
+                                                                    (Zpos XH))
+                                                                    i true
+                                                                    in
+                                                                    (
+                                                                    match 
+                                                                    skip_ws r0 with
+                                                                    | [] ->
+                                                                    None
+                                                                    | z3 :: r'0 ->
+                                                                    (match z3 with
+                                                                    | Zpos p19 ->
+                                                                    (match p19 with
+                                                                    | XO p20 ->
+                                                                    (match p20 with
+                                                                    | XI p21 ->
+                                                                    (match p21 with
+                                                                    | XO p22 ->
+                                                                    (match p22 with
+                                                                    | XI p23 ->
+                                                                    (match p23 with
+                                                                    | XI p24 ->
+                                                                    (match p24 with
+                                                                    | XH ->
+                                                                    (match 
+                                                                    g_tokens
+                                                                    f
+                                                                    (skip_ws
+                                                                    r'0)
+                                                                    (Z.add
+                                                                    depth
+                                                                    (Zpos XH))
+                                                                    i false with
+                                                                    | Some p25 ->
+                                                                    let (
+                                                                    ts, r1) =
+                                                                    p25
+                                                                    in
+                                                                    (
+                                                                    match 
+                                                                    skip_ws r1 with
+                                                                    | [] ->
+                                                                    None
+                                                                    | z4 :: r'1 ->
+                                                                    (match z4 with
+                                                                    | Zpos p26 ->
+                                                                    (match p26 with
+                                                                    | XI p27 ->
+                                                                    (match p27 with
+                                                                    | XO p28 ->
+                                                                    (match p28 with
+                                                                    | XI p29 ->
+                                                                    (match p29 with
+                                                                    | XI p30 ->
+                                                                    (match p30 with
+                                                                    | XI p31 ->
+                                                                    (match p31 with
+                                                                    | XI p32 ->
+                                                                    (match p32 with
+                                                                    | XH ->
+                                                                    Some
+                                                                    ((app acc
+                                                                    (app
+                                                                    (key :: (
+                                                                    (mk_punct
+                                                                    (Zpos (XO
+                                                                    (XI (XO
+                                                                    (XI (XI
+                                                                    XH))))))) :: []))
+                                                                    (app ts
+                                                                    ((mk_punct
+                                                                    (Zpos (XI
+                                                                    (XO (XI
+                                                                    (XI (XI
+                                                                    (XI
+                                                                    XH)))))))) :: [])))),
+                                                                    r'1)
+                                                                    | _ ->
+                                                                    None)
+                                                                    | _ ->
+                                                                    None)
+                                                                    | _ ->
+                                                                    None)
+                                                                    | _ ->
+                                                                    None)
+                                                                    | _ ->
+                                                                    None)
+                                                                    | _ ->
+                                                                    None)
+                                                                    | XO p27 ->
+                                                                    (match p27 with
+                                                                    | XO p28 ->
+                                                                    (match p28 with
+                                                                    | XI p29 ->
+                                                                    (match p29 with
+                                                                    | XI p30 ->
+                                                                    (match p30 with
+                                                                    | XO p31 ->
+                                                                    (match p31 with
+                                                                    | XH ->
+                                                                    members
+                                                                    n'
+                                                                    (skip_ws
+                                                                    r'1)
+                                                                    (Z.add i
+                                                                    (Zpos XH))
+                                                                    (app acc
+                                                                    (app
+                                                                    (key :: (
+                                                                    (mk_punct
+                                                                    (Zpos (XO
+                                                                    (XI (XO
+                                                                    (XI (XI
+                                                                    XH))))))) :: []))
+                                                                    (app ts
+                                                                    ((mk_punct
+                                                                    (Zpos (XO
+                                                                    (XO (XI
+                                                                    (XI (XO
+                                                                    XH))))))) :: []))))
+                                                                    | _ ->
+                                                                    None)
+                                                                    | _ ->
+                                                                    None)
+                                                                    | _ ->
+                                                                    None)
+                                                                    | _ ->
+                                                                    None)
+                                                                    | _ ->
+                                                                    None)
+                                                                    | XH ->
+                                                                    None)
+                                                                    | _ ->
+                                                                    None))
+                                                                    | None ->
+                                                                    None)
+                                                                    | _ ->
+                                                                    None)
+                                                                    | _ ->
+                                                                    None)
+                                                                    | _ ->
+                                                                    None)
+                                                                    | _ ->
+                                                                    None)
+                                                                    | _ ->
+                                                                    None)
+                                                                    | _ ->
+                                                                    None)
+                                                                    | _ ->
+                                                                    None))
+                                                                    | None ->
+                                                                    None)
+                                                                    | _ ->
+                                                                    None)
+                                                                    | _ ->
+                                                                    None)
+                                                                    | _ ->
+                                                                    None)
+                                                                    | _ ->
+                                                                    None)
+                                                                    | _ ->
+                                                                    None)
+                                                                  | _ -> None)
+                                                               | _ -> None))
+                                                       in members f ((Zpos
+                                                            (XI (XO (XI (XI
+                                                            (XI (XO
+                                                            p12))))))) :: r')
+                                                            Z0 (open_ :: [])
+                                                     | XH ->
+                                                       let rec members n0 b0 i acc =
+                                                         match n0 with
+                                                         | O -> None
+                                                         | S n' ->
+                                                           (match b0 with
+                                                            | [] -> None
+                                                            | z2 :: k ->
+                                                              (match z2 with
+                                                               | Zpos p12 ->
+                                                                 (match p12 with
+                                                                  | XO p13 ->
+                                                                    (match p13 with
+                                                                    | XI p14 ->
+                                                                    (match p14 with
+                                                                    | XO p15 ->
+                                                                    (match p15 with
+                                                                    | XO p16 ->
+                                                                    (match p16 with
+                                                                    | XO p17 ->
+                                                                    (match p17 with
+                                                                    | XH ->
+                                                                    (match 
+                                                                    g_string k with
+                                                                    | Some r0 ->
+                                                                    let key =
+                                                                    mk_scalar
+                                                                    (consumed
+                                                                    b0 r0)
+                                                                    (Z.add
+                                                                    depth
+                                                                    (Zpos XH))
+                                                                    i true
+                                                                    in
+                                                                    (
+                                                                    match 
+                                                                    skip_ws r0 with
+                                                                    | [] ->
+                                                                    None
+                                                                    | z3 :: r'0 ->
+                                                                    (match z3 with
+                                                                    | Zpos p18 ->
+                                                                    (match p18 with
+                                                                    | XO p19 ->
+                                                                    (match p19 with
+                                                                    | XI p20 ->
+                                                                    (match p20 with
+                                                                    | XO p21 ->
+                                                                    (match p21 with
+                                                                    | XI p22 ->
+                                                                    (match p22 with
+                                                                    | XI p23 ->
+                                                                    (match p23 with
+                                                                    | XH ->
+                                                                    (match 
+                                                                    g_tokens
+                                                                    f
+                                                                    (skip_ws
+                                                                    r'0)
+                                                                    (Z.add
+                                                                    depth
+                                                                    (Zpos XH))
+                                                                    i false with
+                                                                    | Some p24 ->
+                                                                    let (
+                                                                    ts, r1) =
+                                                                    p24
+                                                                    in
+                                                                    (
+                                                                    match 
+                                                                    skip_ws r1 with
+                                                                    | [] ->
+                                                                    None
+                                                                    | z4 :: r'1 ->
+                                                                    (match z4 with
+                                                                    | Zpos p25 ->
+                                                                    (match p25 with
+                                                                    | XI p26 ->
+                                                                    (match p26 with
+                                                                    | XO p27 ->
+                                                                    (match p27 with
+                                                                    | XI p28 ->
+                                                                    (match p28 with
+                                                                    | XI p29 ->
+                                                                    (match p29 with
+                                                                    | XI p30 ->
+                                                                    (match p30 with
+                                                                    | XI p31 ->
+                                                                    (match p31 with
+                                                                    | XH ->
+                                                                    Some
+                                                                    ((app acc
+                                                                    (app
+                                                                    (key :: (
+                                                                    (mk_punct
+                                                                    (Zpos (XO
+                                                                    (XI (XO
+                                                                    (XI (XI
+                                                                    XH))))))) :: []))
+                                                                    (app ts
+                                                                    ((mk_punct
+                                                                    (Zpos (XI
+                                                                    (XO (XI
+                                                                    (XI (XI
+                                                                    (XI
+                                                                    XH)))))))) :: [])))),
+                                                                    r'1)
+                                                                    | _ ->
+                                                                    None)
+                                                                    | _ ->
+                                                                    None)
+                                                                    | _ ->
+                                                                    None)
+                                                                    | _ ->
+                                                                    None)
+                                                                    | _ ->
+                                                                    None)
+                                                                    | _ ->
+                                                                    None)
+                                                                    | XO p26 ->
+                                                                    (match p26 with
+                                                                    | XO p27 ->
+                                                                    (match p27 with
+                                                                    | XI p28 ->
+                                                                    (match p28 with
+                                                                    | XI p29 ->
+                                                                    (match p29 with
+                                                                    | XO p30 ->
+                                                                    (match p30 with
+                                                                    | XH ->
+                                                                    members
+                                                                    n'
+                                                                    (skip_ws
+                                                                    r'1)
+                                                                    (Z.add i
+                                                                    (Zpos XH))
+                                                                    (app acc
+                                                                    (app
+                                                                    (key :: (
+                                                                    (mk_punct
+                                                                    (Zpos (XO
+                                                                    (XI (XO
+                                                                    (XI (XI
+                                                                    XH))))))) :: []))
+                                                                    (app ts
+                                                                    ((mk_punct
+                                                                    (Zpos (XO
+                                                                    (XO (XI
+                                                                    (XI (XO
+                                                                    XH))))))) :: []))))
+                                                                    | _ ->
+                                                                    None)
+                                                                    | _ ->
+                                                                    None)
+                                                                    | _ ->
+                                                                    None)
+                                                                    | _ ->
+                                                                    None)
+                                                                    | _ ->
+                                                                    None)
+                                                                    | XH ->
+                                                                    None)
+                                                                    | _ ->
+                                                                    None))
+                                                                    | None ->
+                                                                    None)
+                                                                    | _ ->
+                                                                    None)
+                                                                    | _ ->
+                                                                    None)
+                                                                    | _ ->
+                                                                    None)
+                                                                    | _ ->
+                                                                    None)
+                                                                    | _ ->
+                                                                    None)
+                                                                    | _ ->
+                                                                    None)
+                                                                    | _ ->
+                                                                    None))
+                                                                    | None ->
+                                                                    None)
+                                                                    | _ ->
+                                                                    None)
+                                                                    | _ ->
+                                                                    None)
+                                                                    | _ ->
+                                                                    None)
+                                                                    | _ ->
+                                                                    None)
+                                                                    | _ ->
+                                                                    None)
+                                                                  | _ -> None)
+                                                               | _ -> None))
+                                                       in members f ((Zpos
+                                                            (XI (XO (XI (XI
+                                                            (XI
+                                                            XH)))))) :: r')
+                                                            Z0 (open_ :: []))
+                                                  | XO p11 ->
+                                                    let rec members n0 b0 i acc =
+                                                      match n0 with
+                                                      | O -> None
+                                                      | S n' ->
+                                                        (match b0 with
+                                                         | [] -> None
+                                                         | z2 :: k ->
+                                                           (match z2 with
+                                                            | Zpos p12 ->
+                                                              (match p12 with
+                                                               | XO p13 ->
+                                                                 (match p13 with
+                                                                  | XI p14 ->
+                                                                    (match p14 with
+                                                                    | XO p15 ->
+                                                                    (match p15 with
+                                                                    | XO p16 ->
+                                                                    (match p16 with
+                                                                    | XO p17 ->
+                                                                    (match p17 with
+                                                                    | XH ->
+                                                                    (match 
+                                                                    g_string k with
+                                                                    | Some r0 ->
+                                                                    let key =
+                                                                    mk_scalar
+                                                                    (consumed
+                                                                    b0 r0)
+                                                                    (Z.add
+                                                                    depth
+                                                                    (Zpos XH))
+                                                                    i true
+                                                                    in
+                                                                    (
+                                                                    match 
+                                                                    skip_ws r0 with
+                                                                    | [] ->
+                                                                    None
+                                                                    | z3 :: r'0 ->
+                                                                    (match z3 with
+                                                                    | Zpos p18 ->
+                                                                    (match p18 with
+                                                                    | XO p19 ->
+                                                                    (match p19 with
+                                                                    | XI p20 ->
+                                                                    (match p20 with
+                                                                    | XO p21 ->
+                                                                    (match p21 with
+                                                                    | XI p22 ->
+                                                                    (match p22 with
+                                                                    | XI p23 ->
+                                                                    (match p23 with
+                                                                    | XH ->
+                                                                    (match 
+                                                                    g_tokens
+                                                                    f
+                                                                    (skip_ws
+                                                                    r'0)
+                                                                    (Z.add
+                                                                    depth
+                                                                    (Zpos XH))
+                                                                    i false with
+                                                                    | Some p24 ->
+                                                                    let (
+                                                                    ts, r1) =
+                                                                    p24
+                                                                    in
+                                                                    (
+                                                                    match 
+                                                                    skip_ws r1 with
+                                                                    | [] ->
+                                                                    None
+                                                                    | z4 :: r'1 ->
+                                                                    (match z4 with
+                                                                    | Zpos p25 ->
+                                                                    (match p25 with
+                                                                    | XI p26 ->
+                                                                    (match p26 with
+                                                                    | XO p27 ->
+                                                                    (match p27 with
+                                                                    | XI p28 ->
+                                                                    (match p28 with
+                                                                    | XI p29 ->
+                                                                    (match p29 with
+                                                                    | XI p30 ->
+                                                                    (match p30 with
+                                                                    | XI p31 ->
+                                                                    (match p31 with
+                                                                    | XH ->
+                                                                    Some
+                                                                    ((app acc
+                                                                    (app
+                                                                    (key :: (
+                                                                    (mk_punct
+                                                                    (Zpos (XO
+                                                                    (XI (XO
+                                                                    (XI (XI
+                                                                    XH))))))) :: []))
+                                                                    (app ts
+                                                                    ((mk_punct
+                                                                    (Zpos (XI
+                                                                    (XO (XI
+                                                                    (XI (XI
+                                                                    (XI
+                                                                    XH)))))))) :: [])))),
+                                                                    r'1)
+                                                                    | _ ->
+                                                                    None)
+                                                                    | _ ->
+                                                                    None)
+                                                                    | _ ->
+                                                                    None)
+                                                                    | _ ->
+                                                                    None)
+                                                                    | _ ->
+                                                                    None)
+                                                                    | _ ->
+                                                                    None)
+                                                                    | XO p26 ->
+                                                                    (match p26 with
+                                                                    | XO p27 ->
+                                                                    (match p27 with
+                                                                    | XI p28 ->
+                                                                    (match p28 with
+                                                                    | XI p29 ->
+                                                                    (match p29 with
+                                                                    | XO p30 ->
+                                                                    (match p30 with
+                                                                    | XH ->
+                                                                    members
+                                                                    n'
+                                                                    (skip_ws
+                                                                    r'1)
+                                                                    (Z.add i
+                                                                    (Zpos XH))
+                                                                    (app acc
+                                                                    (app
+                                                                    (key :: (
+                                                                    (mk_punct
+                                                                    (Zpos (XO
+                                                                    (XI (XO
+                                                                    (XI (XI
+                                                                    XH))))))) :: []))
+                                                                    (app ts
+                                                                    ((mk_punct
+                                                                    (Zpos (XO
+                                                                    (XO (XI
+                                                                    (XI (XO
+                                                                    XH))))))) :: []))))
+                                                                    | _ ->
+                                                                    None)
+                                                                    | _ ->
+                                                                    None)
+                                                                    | _ ->
+                                                                    None)
+                                                                    | _ ->
+                                                                    None)
+                                                                    | _ ->
+                                                                    None)
+                                                                    | XH ->
+                                                                    None)
+                                                                    | _ ->
+                                                                    None))
+                                                                    | None ->
+                                                                    None)
+                                                                    | _ ->
+                                                                    None)
+                                                                    | _ ->
+                                                                    None)
+                                                                    | _ ->
+                                                                    None)
+                                                                    | _ ->
+                                                                    None)
+                                                                    | _ ->
+                                                                    None)
+                                                                    | _ ->
+                                                                    None)
+                                                                    | _ ->
+                                                                    None))
+                                                                    | None ->
+                                                                    None)
+                                                                    | _ ->
+                                                                    None)
+                                                                    | _ ->
+                                                                    None)
+                                                                    | _ ->
+                                                                    None)
+                                                                    | _ ->
+                                                                    None)
+                                                                  | _ -> None)
+                                                               | _ -> None)
+                                                            | _ -> None))
+                                                    in members f ((Zpos (XI
+                                                         (XO (XI (XI (XO
+                                                         p11)))))) :: r') Z0
+                                                         (open_ :: [])
+                                                  | XH ->
+                                                    let rec members n0 b0 i acc =
+                                                      match n0 with
+                                                      | O -> None
+                                                      | S n' ->
+                                                        (match b0 with
+                                                         | [] -> None
+                                                         | z2 :: k ->
+                                                           (match z2 with
+                                                            | Zpos p11 ->
+                                                              (match p11 with
+                                                               | XO p12 ->
+                                                                 (match p12 with
+                                                                  | XI p13 ->
+                                                                    (match p13 with
+                                                                    | XO p14 ->
+                                                                    (match p14 with
+                                                                    | XO p15 ->
+                                                                    (match p15 with
+                                                                    | XO p16 ->
+                                                                    (match p16 with
+                                                                    | XH ->
+                                                                    (match 
+                                                                    g_string k with
+                                                                    | Some r0 ->
+                                                                    let key =
+                                                                    mk_scalar
+                                                                    (consumed
+                                                                    b0 r0)
+                                                                    (Z.add
+                                                                    depth
+                                                                    (Zpos XH))
+                                                                    i true
+                                                                    in
+                                                                    (
+                                                                    match 
+                                                                    skip_ws r0 with
+                                                                    | [] ->
+                                                                    None
+                                                                    | z3 :: r'0 ->
+                                                                    (match z3 with
+                                                                    | Zpos p17 ->
+                                                                    (match p17 with
+                                                                    | XO p18 ->
+                                                                    (match p18 with
+                                                                    | XI p19 ->
+                                                                    (match p19 with
+                                                                    | XO p20 ->
+                                                                    (match p20 with
+                                                                    | XI p21 ->
+                                                                    (match p21 with
+                                                                    | XI p22 ->
+                                                                    (match p22 with
+                                                                    | XH ->
+                                                                    (match 
+                                                                    g_tokens
+                                                                    f
+                                                                    (skip_ws
+                                                                    r'0)
+                                                                    (Z.add
+                                                                    depth
+                                                                    (Zpos XH))
+                                                                    i false with
+                                                                    | Some p23 ->
+                                                                    let (
+                                                                    ts, r1) =
+                                                                    p23
+                                                                    in
+                                                                    (
+                                                                    match 
+                                                                    skip_ws r1 with
+                                                                    | [] ->
+                                                                    None
+                                                                    | z4 :: r'1 ->
+                                                                    (match z4 with
+                                                                    | Zpos p24 ->
+                                                                    (match p24 with
+                                                                    | XI p25 ->
+                                                                    (match p25 with
+                                                                    | XO p26 ->
+                                                                    (match p26 with
+                                                                    | XI p27 ->
+                                                                    (match p27 with
+                                                                    | XI p28 ->
+                                                                    (match p28 with
+                                                                    | XI p29 ->
+                                                                    (match p29 with
+                                                                    | XI p30 ->
+                                                                    (match p30 with
+                                                                    | XH ->
+                                                                    Some
+                                                                    ((app acc
+                                                                    (app
+                                                                    (key :: (
+                                                                    (mk_punct
+                                                                    (Zpos (XO
+                                                                    (XI (XO
+                                                                    (XI (XI
+                                                                    XH))))))) :: []))
+                                                                    (app ts
+                                                                    ((mk_punct
+                                                                    (Zpos (XI
+                                                                    (XO (XI
+                                                                    (XI (XI
+                                                                    (XI
+                                                                    XH)))))))) :: [])))),
+                                                                    r'1)
+                                                                    | _ ->
+                                                                    None)
+                                                                    | _ ->
+                                                                    None)
+                                                                    | _ ->
+                                                                    None)
+                                                                    | _ ->
+                                                                    None)
+                                                                    | _ ->
+                                                                    None)
+                                                                    | _ ->
+                                                                    None)
+                                                                    | XO p25 ->
+                                                                    (match p25 with
+                                                                    | XO p26 ->
+                                                                    (match p26 with
+                                                                    | XI p27 ->
+                                                                    (match p27 with
+                                                                    | XI p28 ->
+                                                                    (match p28 with
+                                                                    | XO p29 ->
+                                                                    (match p29 with
+                                                                    | XH ->
+                                                                    members
+                                                                    n'
+                                                                    (skip_ws
+                                                                    r'1)
+                                                                    (Z.add i
+                                                                    (Zpos XH))
+                                                                    (app acc
+                                                                    (app
+                                                                    (key :: (
+                                                                    (mk_punct
+                                                                    (Zpos (XO
+                                                                    (XI (XO
+                                                                    (XI (XI
+                                                                    XH))))))) :: []))
+                                                                    (app ts
+                                                                    ((mk_punct
+                                                                    (Zpos (XO
+                                                                    (XO (XI
+                                                                    (XI (XO
+                                                                    XH))))))) :: []))))
+                                                                    | _ ->
+                                                                    None)
+                                                                    | _ ->
+                                                                    None)
+                                                                    | _ ->
+                                                                    None)
+                                                                    | _ ->
+                                                                    None)
+                                                                    | _ ->
+                                                                    None)
+                                                                    | XH ->
+                                                                    None)
+                                                                    | _ ->
+                                                                    None))
+                                                                    | None ->
+                                                                    None)
+                                                                    | _ ->
+                                                                    None)
+                                                                    | _ ->
+                                                                    None)
+                                                                    | _ ->
+                                                                    None)
+                                                                    | _ ->
+                                                                    None)
+                                                                    | _ ->
+                                                                    None)
+                                                                    | _ ->
+                                                                    None)
+                                                                    | _ ->
+                                                                    None))
+                                                                    | None ->
+                                                                    None)
+                                                                    | _ ->
+                                                                    None)
+                                                                    | _ ->
+                                                                    None)
+                                                                    | _ ->
+                                                                    None)
+                                                                    | _ ->
+                                                                    None)
+                                                                  | _ -> None)
+                                                               | _ -> None)
+                                                            | _ -> None))
+                                                    in members f ((Zpos (XI
+                                                         (XO (XI (XI
+                                                         XH))))) :: r') Z0
+                                                         (open_ :: []))
+                                               | XO p10 ->
+                                                 let rec members n0 b0 i acc =
+                                                   match n0 with
+                                                   | O -> None
+                                                   | S n' ->
+                                                     (match b0 with
+                                                      | [] -> None
+                                                      | z2 :: k ->
+                                                        (match z2 with
+                                                         | Zpos p11 ->
+                                                           (match p11 with
+                                                            | XO p12 ->
+                                                              (match p12 with
+                                                               | XI p13 ->
+                                                                 (match p13 with
+                                                                  | XO p14 ->
+                                                                    (match p14 with
+                                                                    | XO p15 ->
+                                                                    (match p15 with
+                                                                    | XO p16 ->
+                                                                    (match p16 with
+                                                                    | XH ->
+                                                                    (match 
+                                                                    g_string k with
+                                                                    | Some r0 ->
+                                                                    let key =
+                                                                    mk_scalar
+                                                                    (consumed
+                                                                    b0 r0)
+                                                                    (Z.add
+                                                                    depth
+                                                                    (Zpos XH))
+                                                                    i true
+                                                                    in
+                                                                    (
+                                                                    match 
+                                                                    skip_ws r0 with
+                                                                    | [] ->
+                                                                    None
+                                                                    | z3 :: r'0 ->
+                                                                    (match z3 with
+                                                                    | Zpos p17 ->
+                                                                    (match p17 with
+                                                                    | XO p18 ->
+                                                                    (match p18 with
+                                                                    | XI p19 ->
+                                                                    (match p19 with
+                                                                    | XO p20 ->
+                                                                    (match p20 with
+                                                                    | XI p21 ->
+                                                                    (match p21 with
+                                                                    | XI p22 ->
+                                                                    (match p22 with
+                                                                    | XH ->
+                                                                    (match 
+                                                                    g_tokens
+                                                                    f
+                                                                    (skip_ws
+                                                                    r'0)
+                                                                    (Z.add
+                                                                    depth
+                                                                    (Zpos XH))
+                                                                    i false with
+                                                                    | Some p23 ->
+                                                                    let (
+                                                                    ts, r1) =
+                                                                    p23
+                                                                    in
+                                                                    (
+                                                                    match 
+                                                                    skip_ws r1 with
+                                                                    | [] ->
+                                                                    None
+                                                                    | z4 :: r'1 ->
+                                                                    (match z4 with
+                                                                    | Zpos p24 ->
+                                                                    (match p24 with
+                                                                    | XI p25 ->
+                                                                    (match p25 with
+                                                                    | XO p26 ->
+                                                                    (match p26 with
+                                                                    | XI p27 ->
+                                                                    (match p27 with
+                                                                    | XI p28 ->
+                                                                    (match p28 with
+                                                                    | XI p29 ->
+                                                                    (match p29 with
+                                                                    | XI p30 ->
+                                                                    (match p30 with
+                                                                    | XH ->
+                                                                    Some
+                                                                    ((app acc
+                                                                    (app
+                                                                    (key :: (
+                                                                    (mk_punct
+                                                                    (Zpos (XO
+                                                                    (XI (XO
+                                                                    (XI (XI
+                                                                    XH))))))) :: []))
+                                                                    (app ts
+                                                                    ((mk_punct
+                                                                    (Zpos (XI
+                                                                    (XO (XI
+                                                                    (XI (XI
+                                                                    (XI
+                                                                    XH)))))))) :: [])))),
+                                                                    r'1)
+                                                                    | _ ->
+                                                                    None)
+                                                                    | _ ->
+                                                                    None)
+                                                                    | _ ->
+                                                                    None)
+                                                                    | _ ->
+                                                                    None)
+                                                                    | _ ->
+                                                                    None)
+                                                                    | _ ->
+                                                                    None)
+                                                                    | XO p25 ->
+                                                                    (match p25 with
+                                                                    | XO p26 ->
+                                                                    (match p26 with
+                                                                    | XI p27 ->
+                                                                    (match p27 with
+                                                                    | XI p28 ->
+                                                                    (match p28 with
+                                                                    | XO p29 ->
+                                                                    (match p29 with
+                                                                    | XH ->
+                                                                    members
+                                                                    n'
+                                                                    (skip_ws
+                                                                    r'1)
+                                                                    (Z.add i
+                                                                    (Zpos XH))
+                                                                    (app acc
+                                                                    (app
+                                                                    (key :: (
+                                                                    (mk_punct
+                                                                    (Zpos (XO
+                                                                    (XI (XO
+                                                                    (XI (XI
+                                                                    XH))))))) :: []))
+                                                                    (app ts
+                                                                    ((mk_punct
+                                                                    (Zpos (XO
+                                                                    (XO (XI
+                                                                    (XI (XO
+                                                                    XH))))))) :: []))))
+                                                                    | _ ->
+                                                                    None)
+                                                                    | _ ->
+                                                                    None)
+                                                                    | _ ->
+                                                                    None)
+                                                                    | _ ->
+                                                                    None)
+                                                                    | _ ->
+                                                                    None)
+                                                                    | XH ->
+                                                                    None)
+                                                                    | _ ->
+                                                                    None))
+                                                                    | None ->
+                                                                    None)
+                                                                    | _ ->
+                                                                    None)
+                                                                    | _ ->
+                                                                    None)
+                                                                    | _ ->
+                                                                    None)
+                                                                    | _ ->
+                                                                    None)
+                                                                    | _ ->
+                                                                    None)
+                                                                    | _ ->
+                                                                    None)
+                                                                    | _ ->
+                                                                    None))
+                                                                    | None ->
+                                                                    None)
+                                                                    | _ ->
+                                                                    None)
+                                                                    | _ ->
+                                                                    None)
+                                                                    | _ ->
+                                                                    None)
+                                                                  | _ -> None)
+                                                               | _ -> None)
+                                                            | _ -> None)
+                                                         | _ -> None))
+                                                 in members f ((Zpos (XI (XO
+                                                      (XI (XO p10))))) :: r')
+                                                      Z0 (open_ :: [])
+                                               | XH ->
+                                                 let rec members n0 b0 i acc =
+                                                   match n0 with
+                                                   | O -> None
+                                                   | S n' ->
+                                                     (match b0 with
+                                                      | [] -> None
+                                                      | z2 :: k ->
+                                                        (match z2 with
+                                                         | Zpos p10 ->
+                                                           (match p10 with
+                                                            | XO p11 ->
+                                                              (match p11 with
+                                                               | XI p12 ->
+                                                                 (match p12 with
+                                                                  | XO p13 ->
+                                                                    (match p13 with
+                                                                    | XO p14 ->
+                                                                    (match p14 with
+                                                                    | XO p15 ->
+                                                                    (match p15 with
+                                                                    | XH ->
+                                                                    (match 
+                                                                    g_string k with
+                                                                    | Some r0 ->
+                                                                    let key =
+                                                                    mk_scalar
+                                                                    (consumed
+                                                                    b0 r0)
+                                                                    (Z.add
+                                                                    depth
+                                                                    (Zpos XH))
+                                                                    i true
+                                                                    in
+                                                                    (
+                                                                    match 
+                                                                    skip_ws r0 with
+                                                                    | [] ->
+                                                                    None
+                                                                    | z3 :: r'0 ->
+                                                                    (match z3 with
+                                                                    | Zpos p16 ->
+                                                                    (match p16 with
+                                                                    | XO p17 ->
+                                                                    (match p17 with
+                                                                    | XI p18 ->
+                                                                    (match p18 with
+                                                                    | XO p19 ->
+                                                                    (match p19 with
+                                                                    | XI p20 ->
+                                                                    (match p20 with
+                                                                    | XI p21 ->
+                                                                    (match p21 with
+                                                                    | XH ->
+                                                                    (match 
+                                                                    g_tokens
+                                                                    f
+                                                                    (skip_ws
+                                                                    r'0)
+                                                                    (Z.add
+                                                                    depth
+                                                                    (Zpos XH))
+                                                                    i false with
+                                                                    | Some p22 ->
+                                                                    let (
+                                                                    ts, r1) =
+                                                                    p22
+                                                                    in
+                                                                    (
+                                                                    match 
+                                                                    skip_ws r1 with
+                                                                    | [] ->
+                                                                    None
+                                                                    | z4 :: r'1 ->
+                                                                    (match z4 with
+                                                                    | Zpos p23 ->
+                                                                    (match p23 with
+                                                                    | XI p24 ->
+                                                                    (match p24 with
+                                                                    | XO p25 ->
+                                                                    (match p25 with
+                                                                    | XI p26 ->
+                                                                    (match p26 with
+                                                                    | XI p27 ->
+                                                                    (match p27 with
+                                                                    | XI p28 ->
+                                                                    (match p28 with
+                                                                    | XI p29 ->
+                                                                    (match p29 with
+                                                                    | XH ->
+                                                                    Some
+                                                                    ((app acc
+                                                                    (app
+                                                                    (key :: (
+                                                                    (mk_punct
+                                                                    (Zpos (XO
+                                                                    (XI (XO
+                                                                    (XI (XI
+                                                                    XH))))))) :: []))
+                                                                    (app ts
+                                                                    ((mk_punct
+                                                                    (Zpos (XI
+                                                                    (XO (XI
+                                                                    (XI (XI
+                                                                    (XI
+                                                                    XH)))))))) :: [])))),
+                                                                    r'1)
+                                                                    | _ ->
+                                                                    None)
+                                                                    | _ ->
+                                                                    None)
+                                                                    | _ ->
+                                                                    None)
+                                                                    | _ ->
+                                                                    None)
+                                                                    | _ ->
+                                                                    None)
+                                                                    | _ ->
+                                                                    None)
+                                                                    | XO p24 ->
+                                                                    (match p24 with
+                                                                    | XO p25 ->
+                                                                    (match p25 with
+                                                                    | XI p26 ->
+                                                                    (match p26 with
+                                                                    | XI p27 ->
+                                                                    (match p27 with
+                                                                    | XO p28 ->
+                                                                    (match p28 with
+                                                                    | XH ->
+                                                                    members
+                                                                    n'
+                                                                    (skip_ws
+                                                                    r'1)
+                                                                    (Z.add i
+                                                                    (Zpos XH))
+                                                                    (app acc
+                                                                    (app
+                                                                    (key :: (
+                                                                    (mk_punct
+                                                                    (Zpos (XO
+                                                                    (XI (XO
+                                                                    (XI (XI
+                                                                    XH))))))) :: []))
+                                                                    (app ts
+                                                                    ((mk_punct
+                                                                    (Zpos (XO
+                                                                    (XO (XI
+                                                                    (XI (XO
+                                                                    XH))))))) :: []))))
+                                                                    | _ ->
+                                                                    None)
+                                                                    | _ ->
+                                                                    None)
+                                                                    | _ ->
+                                                                    None)
+                                                                    | _ ->
+                                                                    None)
+                                                                    | _ ->
+                                                                    None)
+                                                                    | XH ->
+                                                                    None)
+                                                                    | _ ->
+                                                                    None))
+                                                                    | None ->
+                                                                    None)
+                                                                    | _ ->
+                                                                    None)
+                                                                    | _ ->
+                                                                    None)
+                                                                    | _ ->
+                                                                    None)
+                                                                    | _ ->
+                                                                    None)
+                                                                    | _ ->
+                                                                    None)
+                                                                    | _ ->
+                                                                    None)
+                                                                    | _ ->
+                                                                    None))
+                                                                    | None ->
+                                                                    None)
+                                                                    | _ ->
+                                                                    None)
+                                                                    | _ ->
+                                                                    None)
+                                                                    | _ ->
+                                                                    None)
+                                                                  | _ -> None)
+                                                               | _ -> None)
+                                                            | _ -> None)
+                                                         | _ -> None))
+                                                 in members f ((Zpos (XI (XO
+                                                      (XI XH)))) :: r') Z0
+                                                      (open_ :: []))
+                                            | XO p9 ->
+                                              let rec members n0 b0 i acc =
+                                                match n0 with
+                                                | O -> None
+                                                | S n' ->
+                                                  (match b0 with
+                                                   | [] -> None
+                                                   | z2 :: k ->
+                                                     (match z2 with
+                                                      | Zpos p10 ->
+                                                        (match p10 with
+                                                         | XO p11 ->
+                                                           (match p11 with
+                                                            | XI p12 ->
+                                                              (match p12 with
+                                                               | XO p13 ->
+                                                                 (match p13 with
+                                                                  | XO p14 ->
+                                                                    (match p14 with
+                                                                    | XO p15 ->
+                                                                    (match p15 with
+                                                                    | XH ->
+                                                                    (match 
+                                                                    g_string k with
+                                                                    | Some r0 ->
+                                                                    let key =
+                                                                    mk_scalar
+                                                                    (consumed
+                                                                    b0 r0)
+                                                                    (Z.add
+                                                                    depth
+                                                                    (Zpos XH))
+                                                                    i true
+                                                                    in
+                                                                    (
+                                                                    match 
+                                                                    skip_ws r0 with
+                                                                    | [] ->
+                                                                    None
+                                                                    | z3 :: r'0 ->
+                                                                    (match z3 with
+                                                                    | Zpos p16 ->
+                                                                    (match p16 with
+                                                                    | XO p17 ->
+                                                                    (match p17 with
+                                                                    | XI p18 ->
+                                                                    (match p18 with
+                                                                    | XO p19 ->
+                                                                    (match p19 with
+                                                                    | XI p20 ->
+                                                                    (match p20 with
+                                                                    | XI p21 ->
+                                                                    (match p21 with
+                                                                    | XH ->
+                                                                    (match 
+                                                                    g_tokens
+                                                                    f
+                                                                    (skip_ws
+                                                                    r'0)
+                                                                    (Z.add
+                                                                    depth
+                                                                    (Zpos XH))
+                                                                    i false with
+                                                                    | Some p22 ->
+                                                                    let (
+                                                                    ts, r1) =
+                                                                    p22
+                                                                    in
+                                                                    (
+                                                                    match 
+                                                                    skip_ws r1 with
+                                                                    | [] ->
+                                                                    None
+                                                                    | z4 :: r'1 ->
+                                                                    (match z4 with
+                                                                    | Zpos p23 ->
+                                                                    (match p23 with
+                                                                    | XI p24 ->
+                                                                    (match p24 with
+                                                                    | XO p25 ->
+                                                                    (match p25 with
+                                                                    | XI p26 ->
+                                                                    (match p26 with
+                                                                    | XI p27 ->
+                                                                    (match p27 with
+                                                                    | XI p28 ->
+                                                                    (match p28 with
+                                                                    | XI p29 ->
+                                                                    (match p29 with
+                                                                    | XH ->
+                                                                    Some
+                                                                    ((app acc
+                                                                    (app
+                                                                    (key :: (
+                                                                    (mk_punct
+                                                                    (Zpos (XO
+                                                                    (XI (XO
+                                                                    (XI (XI
+                                                                    XH))))))) :: []))
+                                                                    (app ts
+                                                                    ((mk_punct
+                                                                    (Zpos (XI
+                                                                    (XO (XI
+                                                                    (XI (XI
+                                                                    (XI
+                                                                    XH)))))))) :: [])))),
+                                                                    r'1)
+                                                                    | _ ->
+                                                                    None)
+                                                                    | _ ->
+                                                                    None)
+                                                                    | _ ->
+                                                                    None)
+                                                                    | _ ->
+                                                                    None)
+                                                                    | _ ->
+                                                                    None)
+                                                                    | _ ->
+                                                                    None)
+                                                                    | XO p24 ->
+                                                                    (match p24 with
+                                                                    | XO p25 ->
+                                                                    (match p25 with
+                                                                    | XI p26 ->
+                                                                    (match p26 with
+                                                                    | XI p27 ->
+                                                                    (match p27 with
+                                                                    | XO p28 ->
+                                                                    (match p28 with
+                                                                    | XH ->
+                                                                    members
+                                                                    n'
+                                                                    (skip_ws
+                                                                    r'1)
+                                                                    (Z.add i
+                                                                    (Zpos XH))
+                                                                    (app acc
+                                                                    (app
+                                                                    (key :: (
+                                                                    (mk_punct
+                                                                    (Zpos (XO
+                                                                    (XI (XO
+                                                                    (XI (XI
+                                                                    XH))))))) :: []))
+                                                                    (app ts
+                                                                    ((mk_punct
+                                                                    (Zpos (XO
+                                                                    (XO (XI
+                                                                    (XI (XO
+                                                                    XH))))))) :: []))))
+                                                                    | _ ->
+                                                                    None)
+                                                                    | _ ->
+                                                                    None)
+                                                                    | _ ->
+                                                                    None)
+                                                                    | _ ->
+                                                                    None)
+                                                                    | _ ->
+                                                                    None)
+                                                                    | XH ->
+                                                                    None)
+                                                                    | _ ->
+                                                                    None))
+                                                                    | None ->
+                                                                    None)
+                                                                    | _ ->
+                                                                    None)
+                                                                    | _ ->
+                                                                    None)
+                                                                    | _ ->
+                                                                    None)
+                                                                    | _ ->
+                                                                    None)
+                                                                    | _ ->
+                                                                    None)
+                                                                    | _ ->
+                                                                    None)
+                                                                    | _ ->
+                                                                    None))
+                                                                    | None ->
+                                                                    None)
+                                                                    | _ ->
+                                                                    None)
+                                                                    | _ ->
+                                                                    None)
+                                                                  | _ -> None)
+                                                               | _ -> None)
+                                                            | _ -> None)
+                                                         | _ -> None)
+                                                      | _ -> None))
+                                              in members f ((Zpos (XI (XO (XO
+                                                   p9)))) :: r') Z0
+                                                   (open_ :: [])
+                                            | XH ->
+                                              let rec members n0 b0 i acc =
+                                                match n0 with
+                                                | O -> None
+                                                | S n' ->
+                                                  (match b0 with
+                                                   | [] -> None
+                                                   | z2 :: k ->
+                                                     (match z2 with
+                                                      | Zpos p9 ->
+                                                        (match p9 with
+                                                         | XO p10 ->
+                                                           (match p10 with
+                                                            | XI p11 ->
+                                                              (match p11 with
+                                                               | XO p12 ->
+                                                                 (match p12 with
+                                                                  | XO p13 ->
+                                                                    (match p13 with
+                                                                    | XO p14 ->
+                                                                    (match p14 with
+                                                                    | XH ->
+                                                                    (match 
+                                                                    g_string k with
+                                                                    | Some r0 ->
+                                                                    let key =
+                                                                    mk_scalar
+                                                                    (consumed
+                                                                    b0 r0)
+                                                                    (Z.add
+                                                                    depth
+                                                                    (Zpos XH))
+                                                                    i true
+                                                                    in
+                                                                    (
+                                                                    match 
+                                                                    skip_ws r0 with
+                                                                    | [] ->
+                                                                    None
+                                                                    | z3 :: r'0 ->
+                                                                    (match z3 with
+                                                                    | Zpos p15 ->
+                                                                    (match p15 with
+                                                                    | XO p16 ->
+                                                                    (match p16 with
+                                                                    | XI p17 ->
+                                                                    (match p17 with
+                                                                    | XO p18 ->
+                                                                    (match p18 with
+                                                                    | XI p19 ->
+                                                                    (match p19 with
+                                                                    | XI p20 ->
+                                                                    (match p20 with
+                                                                    | XH ->
+                                                                    (match 
+                                                                    g_tokens
+                                                                    f
+                                                                    (skip_ws
+                                                                    r'0)
+                                                                    (Z.add
+                                                                    depth
+                                                                    (Zpos XH))
+                                                                    i false with
+                                                                    | Some p21 ->
+                                                                    let (
+                                                                    ts, r1) =
+                                                                    p21
+                                                                    in
+                                                                    (
+                                                                    match 
+                                                                    skip_ws r1 with
+                                                                    | [] ->
+                                                                    None
+                                                                    | z4 :: r'1 ->
+                                                                    (match z4 with
+                                                                    | Zpos p22 ->
+                                                                    (match p22 with
+                                                                    | XI p23 ->
+                                                                    (match p23 with
+                                                                    | XO p24 ->
+                                                                    (match p24 with
+                                                                    | XI p25 ->
+                                                                    (match p25 with
+                                                                    | XI p26 ->
+                                                                    (match p26 with
+                                                                    | XI p27 ->
+                                                                    (match p27 with
+                                                                    | XI p28 ->
+                                                                    (match p28 with
+                                                                    | XH ->
+                                                                    Some
+                                                                    ((app acc
+                                                                    (app
+                                                                    (key :: (
+                                                                    (mk_punct
+                                                                    (Zpos (XO
+                                                                    (XI (XO
+                                                                    (XI (XI
+                                                                    XH))))))) :: []))
+                                                                    (app ts
+                                                                    ((mk_punct
+                                                                    (Zpos (XI
+                                                                    (XO (XI
+                                                                    (XI (XI
+                                                                    (XI
+                                                                    XH)))))))) :: [])))),
+                                                                    r'1)
+                                                                    | _ ->
+                                                                    None)
+                                                                    | _ ->
+                                                                    None)
+                                                                    | _ ->
+                                                                    None)
+                                                                    | _ ->
+                                                                    None)
+                                                                    | _ ->
+                                                                    None)
+                                                                    | _ ->
+                                                                    None)
+                                                                    | XO p23 ->
+                                                                    (match p23 with
+                                                                    | XO p24 ->
+                                                                    (match p24 with
+                                                                    | XI p25 ->
+                                                                    (match p25 with
+                                                                    | XI p26 ->
+                                                                    (match p26 with
+                                                                    | XO p27 ->
+                                                                    (match p27 with
+                                                                    | XH ->
+                                                                    members
+                                                                    n'
+                                                                    (skip_ws
+                                                                    r'1)
+                                                                    (Z.add i
+                                                                    (Zpos XH))
+                                                                    (app acc
+                                                                    (app
+                                                                    (key :: (
+                                                                    (mk_punct
+                                                                    (Zpos (XO
+                                                                    (XI (XO
+                                                                    (XI (XI
+                                                                    XH))))))) :: []))
+                                                                    (app ts
+                                                                    ((mk_punct
+                                                                    (Zpos (XO
+                                                                    (XO (XI
+                                                                    (XI (XO
+                                                                    XH))))))) :: []))))
+                                                                    | _ ->
+                                                                    None)
+                                                                    | _ ->
+                                                                    None)
+                                                                    | _ ->
+                                                                    None)
+                                                                    | _ ->
+                                                                    None)
+                                                                    | _ ->
+                                                                    None)
+                                                                    | XH ->
+                                                                    None)
+                                                                    | _ ->
+                                                                    None))
+                                                                    | None ->
+                                                                    None)
+                                                                    | _ ->
+                                                                    None)
+                                                                    | _ ->
+                                                                    None)
+                                                                    | _ ->
+                                                                    None)
+                                                                    | _ ->
+                                                                    None)
+                                                                    | _ ->
+                                                                    None)
+                                                                    | _ ->
+                                                                    None)
+                                                                    | _ ->
+                                                                    None))
+                                                                    | None ->
+                                                                    None)
+                                                                    | _ ->
+                                                                    None)
+                                                                    | _ ->
+                                                                    None)
+                                                                  | _ -> None)
+                                                               | _ -> None)
+                                                            | _ -> None)
+                                                         | _ -> None)
+                                                      | _ -> None))
+                                              in members f ((Zpos (XI (XO
+                                                   XH))) :: r') Z0
+                                                   (open_ :: []))
+                                         | XH ->
+                                           let rec members n0 b0 i acc =
+                                             match n0 with
+                                             | O -> None
+                                             | S n' ->
+                                               (match b0 with
+                                                | [] -> None
+                                                | z2 :: k ->
+                                                  (match z2 with
+                                                   | Zpos p8 ->
+                                                     (match p8 with
+                                                      | XO p9 ->
+                                                        (match p9 with
+                                                         | XI p10 ->
+                                                           (match p10 with
+                                                            | XO p11 ->
+                                                              (match p11 with
+                                                               | XO p12 ->
+                                                                 (match p12 with
+                                                                  | XO p13 ->
+                                                                    (match p13 with
+                                                                    | XH ->
+                                                                    (match 
+                                                                    g_string k with
+                                                                    | Some r0 ->
+                                                                    let key =
+                                                                    mk_scalar
+                                                                    (consumed
+                                                                    b0 r0)
+                                                                    (Z.add
+                                                                    depth
+                                                                    (Zpos XH))
+                                                                    i true
+                                                                    in
+                                                                    (
+                                                                    match 
+                                                                    skip_ws r0 with
+                                                                    | [] ->
+                                                                    None
+                                                                    | z3 :: r'0 ->
+                                                                    (match z3 with
+                                                                    | Zpos p14 ->
+                                                                    (match p14 with
+                                                                    | XO p15 ->
+                                                                    (match p15 with
+                                                                    | XI p16 ->
+                                                                    (match p16 with
+                                                                    | XO p17 ->
+                                                                    (match p17 with
+                                                                    | XI p18 ->
+                                                                    (match p18 with
+                                                                    | XI p19 ->
+                                                                    (match p19 with
+                                                                    | XH ->
+                                                                    (match 
+                                                                    g_tokens
+                                                                    f
+                                                                    (skip_ws
+                                                                    r'0)
+                                                                    (Z.add
+                                                                    depth
+                                                                    (Zpos XH))
+                                                                    i false with
+                                                                    | Some p20 ->
+                                                                    let (
+                                                                    ts, r1) =
+                                                                    p20
+                                                                    in
+                                                                    (
+                                                                    match 
+                                                                    skip_ws r1 with
+                                                                    | [] ->
+                                                                    None
+                                                                    | z4 :: r'1 ->
+                                                                    (match z4 with
+                                                                    | Zpos p21 ->
+                                                                    (match p21 with
+                                                                    | XI p22 ->
+                                                                    (match p22 with
+                                                                    | XO p23 ->
+                                                                    (match p23 with
+                                                                    | XI p24 ->
+                                                                    (match p24 with
+                                                                    | XI p25 ->
+                                                                    (match p25 with
+                                                                    | XI p26 ->
+                                                                    (match p26 with
+                                                                    | XI p27 ->
+                                                                    (match p27 with
+                                                                    | XH ->
+                                                                    Some
+                                                                    ((app acc
+                                                                    (app
+                                                                    (key :: (
+                                                                    (mk_punct
+                                                                    (Zpos (XO
+                                                                    (XI (XO
+                                                                    (XI (XI
+                                                                    XH))))))) :: []))
+                                                                    (app ts
+                                                                    ((mk_punct
+                                                                    (Zpos (XI
+                                                                    (XO (XI
+                                                                    (XI (XI
+                                                                    (XI
+                                                                    XH)))))))) :: [])))),
+                                                                    r'1)
+                                                                    | _ ->
+                                                                    None)
+                                                                    | _ ->
+                                                                    None)
+                                                                    | _ ->
+                                                                    None)
+                                                                    | _ ->
+                                                                    None)
+                                                                    | _ ->
+                                                                    None)
+                                                                    | _ ->
+                                                                    None)
+                                                                    | XO p22 ->
+                                                                    (match p22 with
+                                                                    | XO p23 ->
+                                                                    (match p23 with
+                                                                    | XI p24 ->
+                                                                    (match p24 with
+                                                                    | XI p25 ->
+                                                                    (match p25 with
+                                                                    | XO p26 ->
+                                                                    (match p26 with
+                                                                    | XH ->
+                                                                    members
+                                                                    n'
+                                                                    (skip_ws
+                                                                    r'1)
+                                                                    (Z.add i
+                                                                    (Zpos XH))
+                                                                    (app acc
+                                                                    (app
+                                                                    (key :: (
+                                                                    (mk_punct
+                                                                    (Zpos (XO
+                                                                    (XI (XO
+                                                                    (XI (XI
+                                                                    XH))))))) :: []))
+                                                                    (app ts
+                                                                    ((mk_punct
+                                                                    (Zpos (XO
+                                                                    (XO (XI
+                                                                    (XI (XO
+                                                                    XH))))))) :: []))))
+                                                                    | _ ->
+                                                                    None)
+                                                                    | _ ->
+                                                                    None)
+                                                                    | _ ->
+                                                                    None)
+                                                                    | _ ->
+                                                                    None)
+                                                                    | _ ->
+                                                                    None)
+                                                                    | XH ->
+                                                                    None)
+                                                                    | _ ->
+                                                                    None))
+                                                                    | None ->
+                                                                    None)
+                                                                    | _ ->
+                                                                    None)
+                                                                    | _ ->
+                                                                    None)
+                                                                    | _ ->
+                                                                    None)
+                                                                    | _ ->
+                                                                    None)
+                                                                    | _ ->
+                                                                    None)
+                                                                    | _ ->
+                                                                    None)
+                                                                    | _ ->
+                                                                    None))
+                                                                    | None ->
+                                                                    None)
+                                                                    | _ ->
+                                                                    None)
+                                                                  | _ -> None)
+                                                               | _ -> None)
+                                                            | _ -> None)
+                                                         | _ -> None)
+                                                      | _ -> None)
+                                                   | _ -> None))
+                                           in members f ((Zpos (XI
+                                                XH)) :: r') Z0 (open_ :: []))
+                                      | XO p7 ->
+                                        let rec members n0 b0 i acc =
+                                          match n0 with
+                                          | O -> None
+                                          | S n' ->
+                                            (match b0 with
+                                             | [] -> None
+                                             | z2 :: k ->
+                                               (match z2 with
+                                                | Zpos p8 ->
+                                                  (match p8 with
+                                                   | XO p9 ->
+                                                     (match p9 with
+                                                      | XI p10 ->
+                                                        (match p10 with
+                                                         | XO p11 ->
+                                                           (match p11 with
+                                                            | XO p12 ->
+                                                              (match p12 with
+                                                               | XO p13 ->
+                                                                 (match p13 with
+                                                                  | XH ->
+                                                                    (match 
+                                                                    g_string k with
+                                                                    | Some r0 ->
+                                                                    let key =
+                                                                    mk_scalar
+                                                                    (consumed
+                                                                    b0 r0)
+                                                                    (Z.add
+                                                                    depth
+                                                                    (Zpos XH))
+                                                                    i true
+                                                                    in
+                                                                    (
+                                                                    match 
+                                                                    skip_ws r0 with
+                                                                    | [] ->
+                                                                    None
+                                                                    | z3 :: r'0 ->
+                                                                    (match z3 with
+                                                                    | Zpos p14 ->
+                                                                    (match p14 with
+                                                                    | XO p15 ->
+                                                                    (match p15 with
+                                                                    | XI p16 ->
+                                                                    (match p16 with
+                                                                    | XO p17 ->
+                                                                    (match p17 with
+                                                                    | XI p18 ->
+                                                                    (match p18 with
+                                                                    | XI p19 ->
+                                                                    (match p19 with
+                                                                    | XH ->
+                                                                    (match 
+                                                                    g_tokens
+                                                                    f
+                                                                    (skip_ws
+                                                                    r'0)
+                                                                    (Z.add
+                                                                    depth
+                                                                    (Zpos XH))
+                                                                    i false with
+                                                                    | Some p20 ->
+                                                                    let (
+                                                                    ts, r1) =
+                                                                    p20
+                                                                    in
+                                                                    (
+                                                                    match 
+                                                                    skip_ws r1 with
+                                                                    | [] ->
+                                                                    None
+                                                                    | z4 :: r'1 ->
+                                                                    (match z4 with
+                                                                    | Zpos p21 ->
+                                                                    (match p21 with
+                                                                    | XI p22 ->
+                                                                    (match p22 with
+                                                                    | XO p23 ->
+                                                                    (match p23 with
+                                                                    | XI p24 ->
+                                                                    (match p24 with
+                                                                    | XI p25 ->
+                                                                    (match p25 with
+                                                                    | XI p26 ->
+                                                                    (match p26 with
+                                                                    | XI p27 ->
+                                                                    (match p27 with
+                                                                    | XH ->
+                                                                    Some
+                                                                    ((app acc
+                                                                    (app
+                                                                    (key :: (
+                                                                    (mk_punct
+                                                                    (Zpos (XO
+                                                                    (XI (XO
+                                                                    (XI (XI
+                                                                    XH))))))) :: []))
+                                                                    (app ts
+                                                                    ((mk_punct
+                                                                    (Zpos (XI
+                                                                    (XO (XI
+                                                                    (XI (XI
+                                                                    (XI
+                                                                    XH)))))))) :: [])))),
+                                                                    r'1)
+                                                                    | _ ->
+                                                                    None)
+                                                                    | _ ->
+                                                                    None)
+                                                                    | _ ->
+                                                                    None)
+                                                                    | _ ->
+                                                                    None)
+                                                                    | _ ->
+                                                                    None)
+                                                                    | _ ->
+                                                                    None)
+                                                                    | XO p22 ->
+                                                                    (match p22 with
+                                                                    | XO p23 ->
+                                                                    (match p23 with
+                                                                    | XI p24 ->
+                                                                    (match p24 with
+                                                                    | XI p25 ->
+                                                                    (match p25 with
+                                                                    | XO p26 ->
+                                                                    (match p26 with
+                                                                    | XH ->
+                                                                    members
+                                                                    n'
+                                                                    (skip_ws
+                                                                    r'1)
+                                                                    (Z.add i
+                                                                    (Zpos XH))
+                                                                    (app acc
+                                                                    (app
+                                                                    (key :: (
+                                                                    (mk_punct
+                                                                    (Zpos (XO
+                                                                    (XI (XO
+                                                                    (XI (XI
+                                                                    XH))))))) :: []))
+                                                                    (app ts
+                                                                    ((mk_punct
+                                                                    (Zpos (XO
+                                                                    (XO (XI
+                                                                    (XI (XO
+                                                                    XH))))))) :: []))))
+                                                                    | _ ->
+                                                                    None)
+                                                                    | _ ->
+                                                                    None)
+                                                                    | _ ->
+                                                                    None)
+                                                                    | _ ->
+                                                                    None)
+                                                                    | _ ->
+                                                                    None)
+                                                                    | XH ->
+                                                                    None)
+                                                                    | _ ->
+                                                                    None))
+                                                                    | None ->
+                                                                    None)
+                                                                    | _ ->
+                                                                    None)
+                                                                    | _ ->
+                                                                    None)
+                                                                    | _ ->
+                                                                    None)
+                                                                    | _ ->
+                                                                    None)
+                                                                    | _ ->
+                                                                    None)
+                                                                    | _ ->
+                                                                    None)
+                                                                    | _ ->
+                                                                    None))
+                                                                    | None ->
+                                                                    None)
+                                                                  | _ -> None)
+                                                               | _ -> None)
+                                                            | _ -> None)
+                                                         | _ -> None)
+                                                      | _ -> None)
+                                                   | _ -> None)
+                                                | _ -> None))
+                                        in members f ((Zpos (XO p7)) :: r')
+                                             Z0 (open_ :: [])
+                                      | XH ->
+                                        let rec members n0 b0 i acc =
+                                          match n0 with
+                                          | O -> None
+                                          | S n' ->
+                                            (match b0 with
+                                             | [] -> None
+                                             | z2 :: k ->
+                                               (match z2 with
+                                                | Zpos p7 ->
+                                                  (match p7 with
+                                                   | XO p8 ->
+                                                     (match p8 with
+                                                      | XI p9 ->
+                                                        (match p9 with
+                                                         | XO p10 ->
+                                                           (match p10 with
+                                                            | XO p11 ->
+                                                              (match p11 with
+                                                               | XO p12 ->
+                                                                 (match p12 with
+                                                                  | XH ->
+                                                                    (match 
+                                                                    g_string k with
+                                                                    | Some r0 ->
+                                                                    let key =
+                                                                    mk_scalar
+                                                                    (consumed
+                                                                    b0 r0)
+                                                                    (Z.add
+                                                                    depth
+                                                                    (Zpos XH))
+                                                                    i true
+                                                                    in
+                                                                    (
+                                                                    match 
+                                                                    skip_ws r0 with
+                                                                    | [] ->
+                                                                    None
+                                                                    | z3 :: r'0 ->
+                                                                    (match z3 with
+                                                                    | Zpos p13 ->
+                                                                    (match p13 with
+                                                                    | XO p14 ->
+                                                                    (match p14 with
+                                                                    | XI p15 ->
+                                                                    (match p15 with
+                                                                    | XO p16 ->
+                                                                    (match p16 with
+                                                                    | XI p17 ->
+                                                                    (match p17 with
+                                                                    | XI p18 ->
+                                                                    (match p18 with
+                                                                    | XH ->
+                                                                    (match 
+                                                                    g_tokens
+                                                                    f
+                                                                    (skip_ws
+                                                                    r'0)
+                                                                    (Z.add
+                                                                    depth
+                                                                    (Zpos XH))
+                                                                    i false with
+                                                                    | Some p19 ->
+                                                                    let (
+                                                                    ts, r1) =
+                                                                    p19
+                                                                    in
+                                                                    (
+                                                                    match 
+                                                                    skip_ws r1 with
+                                                                    | [] ->
+                                                                    None
+                                                                    | z4 :: r'1 ->
+                                                                    (match z4 with
+                                                                    | Zpos p20 ->
+                                                                    (match p20 with
+                                                                    | XI p21 ->
+                                                                    (match p21 with
+                                                                    | XO p22 ->
+                                                                    (match p22 with
+                                                                    | XI p23 ->
+                                                                    (match p23 with
+                                                                    | XI p24 ->
+                                                                    (match p24 with
+                                                                    | XI p25 ->
+                                                                    (match p25 with
+                                                                    | XI p26 ->
+                                                                    (match p26 with
+                                                                    | XH ->
+                                                                    Some
+                                                                    ((app acc
+                                                                    (app
+                                                                    (key :: (
+                                                                    (mk_punct
+                                                                    (Zpos (XO
+                                                                    (XI (XO
+                                                                    (XI (XI
+                                                                    XH))))))) :: []))
+                                                                    (app ts
+                                                                    ((mk_punct
+                                                                    (Zpos (XI
+                                                                    (XO (XI
+                                                                    (XI (XI
+                                                                    (XI
+                                                                    XH)))))))) :: [])))),
+                                                                    r'1)
+                                                                    | _ ->
+                                                                    None)
+                                                                    | _ ->
+                                                                    None)
+                                                                    | _ ->
+                                                                    None)
+                                                                    | _ ->
+                                                                    None)
+                                                                    | _ ->
+                                                                    None)
+                                                                    | _ ->
+                                                                    None)
+                                                                    | XO p21 ->
+                                                                    (match p21 with
+                                                                    | XO p22 ->
+                                                                    (match p22 with
+                                                                    | XI p23 ->
+                                                                    (match p23 with
+                                                                    | XI p24 ->
+                                                                    (match p24 with
+                                                                    | XO p25 ->
+                                                                    (match p25 with
+                                                                    | XH ->
+                                                                    members
+                                                                    n'
+                                                                    (skip_ws
+                                                                    r'1)
+                                                                    (Z.add i
+                                                                    (Zpos XH))
+                                                                    (app acc
+                                                                    (app
+                                                                    (key :: (
+                                                                    (mk_punct
+                                                                    (Zpos (XO
+                                                                    (XI (XO
+                                                                    (XI (XI
+                                                                    XH))))))) :: []))
+                                                                    (app ts
+                                                                    ((mk_punct
+                                                                    (Zpos (XO
+                                                                    (XO (XI
+                                                                    (XI (XO
+                                                                    XH))))))) :: []))))
+                                                                    | _ ->
+                                                                    None)
+                                                                    | _ ->
+                                                                    None)
+                                                                    | _ ->
+                                                                    None)
+                                                                    | _ ->
+                                                                    None)
+                                                                    | _ ->
+                                                                    None)
+                                                                    | XH ->
+                                                                    None)
+                                                                    | _ ->
+                                                                    None))
+                                                                    | None ->
+                                                                    None)
+                                                                    | _ ->
+                                                                    None)
+                                                                    | _ ->
+                                                                    None)
+                                                                    | _ ->
+                                                                    None)
+                                                                    | _ ->
+                                                                    None)
+                                                                    | _ ->
+                                                                    None)
+                                                                    | _ ->
+                                                                    None)
+                                                                    | _ ->
+                                                                    None))
+                                                                    | None ->
+                                                                    None)
+                                                                  | _ -> None)
+                                                               | _ -> None)
+                                                            | _ -> None)
+                                                         | _ -> None)
+                                                      | _ -> None)
+                                                   | _ -> None)
+                                                | _ -> None))
+                                        in members f ((Zpos XH) :: r') Z0
+                                             (open_ :: []))
+                                   | Zneg p6 ->
+                                     let rec members n0 b0 i acc =
+                                       match n0 with
+                                       | O -> None
+                                       | S n' ->
+                                         (match b0 with
+                                          | [] -> None
+                                          | z2 :: k ->
+                                            (match z2 with
+                                             | Zpos p7 ->
+                                               (match p7 with
+                                                | XO p8 ->
+                                                  (match p8 with
+                                                   | XI p9 ->
+                                                     (match p9 with
+                                                      | XO p10 ->
+                                                        (match p10 with
+                                                         | XO p11 ->
+                                                           (match p11 with
+                                                            | XO p12 ->
+                                                              (match p12 with
+                                                               | XH ->
+                                                                 (match 
+                                                                  g_string k with
+                                                                  | Some r0 ->
+                                                                    let key =
+                                                                    mk_scalar
+                                                                    (consumed
+                                                                    b0 r0)
+                                                                    (Z.add
+                                                                    depth
+                                                                    (Zpos XH))
+                                                                    i true
+                                                                    in
+                                                                    (
+                                                                    match 
+                                                                    skip_ws r0 with
+                                                                    | [] ->
+                                                                    None
+                                                                    | z3 :: r'0 ->
+                                                                    (match z3 with
+                                                                    | Zpos p13 ->
+                                                                    (match p13 with
+                                                                    | XO p14 ->
+                                                                    (match p14 with
+                                                                    | XI p15 ->
+                                                                    (match p15 with
+                                                                    | XO p16 ->
+                                                                    (match p16 with
+                                                                    | XI p17 ->
+                                                                    (match p17 with
+                                                                    | XI p18 ->
+                                                                    (match p18 with
+                                                                    | XH ->
+                                                                    (match 
+                                                                    g_tokens
+                                                                    f
+                                                                    (skip_ws
+                                                                    r'0)
+                                                                    (Z.add
+                                                                    depth
+                                                                    (Zpos XH))
+                                                                    i false with
+                                                                    | Some p19 ->
+                                                                    let (
+                                                                    ts, r1) =
+                                                                    p19
+                                                                    in
+                                                                    (
+                                                                    match 
+                                                                    skip_ws r1 with
+                                                                    | [] ->
+                                                                    None
+                                                                    | z4 :: r'1 ->
+                                                                    (match z4 with
+                                                                    | Zpos p20 ->
+                                                                    (match p20 with
+                                                                    | XI p21 ->
+                                                                    (match p21 with
+                                                                    | XO p22 ->
+                                                                    (match p22 with
+                                                                    | XI p23 ->
+                                                                    (match p23 with
+                                                                    | XI p24 ->
+                                                                    (match p24 with
+                                                                    | XI p25 ->
+                                                                    (match p25 with
+                                                                    | XI p26 ->
+                                                                    (match p26 with
+                                                                    | XH ->
+                                                                    Some
+                                                                    ((app acc
+                                                                    (app
+                                                                    (key :: (
+                                                                    (mk_punct
+                                                                    (Zpos (XO
+                                                                    (XI (XO
+                                                                    (XI (XI
+                                                                    XH))))))) :: []))
+                                                                    (app ts
+                                                                    ((mk_punct
+                                                                    (Zpos (XI
+                                                                    (XO (XI
+                                                                    (XI (XI
+                                                                    (XI
+                                                                    XH)))))))) :: [])))),
+                                                                    r'1)
+                                                                    | _ ->
+                                                                    None)
+                                                                    | _ ->
+                                                                    None)
+                                                                    | _ ->
+                                                                    None)
+                                                                    | _ ->
+                                                                    None)
+                                                                    | _ ->
+                                                                    None)
+                                                                    | _ ->
+                                                                    None)
+                                                                    | XO p21 ->
+                                                                    (match p21 with
+                                                                    | XO p22 ->
+                                                                    (match p22 with
+                                                                    | XI p23 ->
+                                                                    (match p23 with
+                                                                    | XI p24 ->
+                                                                    (match p24 with
+                                                                    | XO p25 ->
+                                                                    (match p25 with
+                                                                    | XH ->
+                                                                    members
+                                                                    n'
+                                                                    (skip_ws
+                                                                    r'1)
+                                                                    (Z.add i
+                                                                    (Zpos XH))
+                                                                    (app acc
+                                                                    (app
+                                                                    (key :: (
+                                                                    (mk_punct
+                                                                    (Zpos (XO
+                                                                    (XI (XO
+                                                                    (XI (XI
+                                                                    XH))))))) :: []))
+                                                                    (app ts
+                                                                    ((mk_punct
+                                                                    (Zpos (XO
+                                                                    (XO (XI
+                                                                    (XI (XO
+                                                                    XH))))))) :: []))))
+                                                                    | _ ->
+                                                                    None)
+                                                                    | _ ->
+                                                                    None)
+                                                                    | _ ->
+                                                                    None)
+                                                                    | _ ->
+                                                                    None)
+                                                                    | _ ->
+                                                                    None)
+                                                                    | XH ->
+                                                                    None)
+                                                                    | _ ->
+                                                                    None))
+                                                                    | None ->
+                                                                    None)
+                                                                    | _ ->
+                                                                    None)
+                                                                    | _ ->
+                                                                    None)
+                                                                    | _ ->
+                                                                    None)
+                                                                    | _ ->
+                                                                    None)
+                                                                    | _ ->
+                                                                    None)
+                                                                    | _ ->
+                                                                    None)
+                                                                    | _ ->
+                                                                    None))
+                                                                  | None ->
+                                                                    None)
+                                                               | _ -> None)
+                                                            | _ -> None)
+                                                         | _ -> None)
+                                                      | _ -> None)
+                                                   | _ -> None)
+                                                | _ -> None)
+                                             | _ -> None))
+                                     in members f ((Zneg p6) :: r') Z0
+                                          (open_ :: [])))
+                             | _ ->
+                               (match g_value (S f) b with
+                                | Some r0 ->
+                                  Some
+                                    (((mk_scalar (consumed b r0) depth index
+                                        iskey) :: []), r0)
+                                | None -> None))
+                          | XO p5 ->
+                            (match p5 with
+                             | XH ->
+                               let open_ =
+                                 mk_scalar ((Zpos (XI (XI (XO (XI (XI (XO
+                                   XH))))))) :: []) depth index iskey
+                               in
+                               (match skip_ws r with
+                                | [] ->
+                                  let rec elems n0 b0 i acc =
+                                    match n0 with
+                                    | O -> None
+                                    | S n' ->
+                                      (match g_tokens f b0
+                                               (Z.add depth (Zpos XH)) i false with
+                                       | Some p6 ->
+                                         let (ts, r0) = p6 in
+                                         (match skip_ws r0 with
+                                          | [] -> None
+                                          | z1 :: r' ->
+                                            (match z1 with
+                                             | Zpos p7 ->
+                                               (match p7 with
+                                                | XI p8 ->
+                                                  (match p8 with
+                                                   | XO p9 ->
+                                                     (match p9 with
+                                                      | XI p10 ->
+                                                        (match p10 with
+                                                         | XI p11 ->
+                                                           (match p11 with
+                                                            | XI p12 ->
+                                                              (match p12 with
+                                                               | XO p13 ->
+                                                                 (match p13 with
+                                                                  | XH ->
+                                                                    Some
+                                                                    ((app acc
+                                                                    (app ts
+                                                                    ((mk_punct
+                                                                    (Zpos (XI
+                                                                    (XO (XI
+                                                                    (XI (XI
+                                                                    (XO
+                                                                    XH)))))))) :: []))),
+                                                                    r')
+                                                                  | _ -> None)
+                                                               | _ -> None)
+                                                            | _ -> None)
+                                                         | _ -> None)
+                                                      | _ -> None)
+                                                   | _ -> None)
+                                                | XO p8 ->
+                                                  (match p8 with
+                                                   | XO p9 ->
+                                                     (match p9 with
+                                                      | XI p10 ->
+                                                        (match p10 with
+                                                         | XI p11 ->
+                                                           (match p11 with
+                                                            | XO p12 ->
+                                                              (match p12 with
+                                                               | XH ->
+                                                                 elems n'
+                                                                   (skip_ws
+                                                                    r')
+                                                                   (Z.add i
+                                                                    (Zpos XH))
+                                                                   (app acc
+                                                                    (app ts
+                                                                    ((mk_punct
+                                                                    (Zpos (XO
+                                                                    (XO (XI
+                                                                    (XI (XO
+                                                                    XH))))))) :: [])))
+                                                               | _ -> None)
+                                                            | _ -> None)
+                                                         | _ -> None)
+                                                      | _ -> None)
+                                                   | _ -> None)
+                                                | XH -> None)
+                                             | _ -> None))
+                                       | None -> None)
+                                  in elems f [] Z0 (open_ :: [])
+                                | z1 :: r' ->
+                                  (match z1 with
+                                   | Z0 ->
+                                     let rec elems n0 b0 i acc =
+                                       match n0 with
+                                       | O -> None
+                                       | S n' ->
+                                         (match g_tokens f b0
+                                                  (Z.add depth (Zpos XH)) i
+                                                  false with
+                                          | Some p6 ->
+                                            let (ts, r0) = p6 in
+                                            (match skip_ws r0 with
+                                             | [] -> None
+                                             | z2 :: r'0 ->
+                                               (match z2 with
+                                                | Zpos p7 ->
+                                                  (match p7 with
+                                                   | XI p8 ->
+                                                     (match p8 with
+                                                      | XO p9 ->
+                                                        (match p9 with
+                                                         | XI p10 ->
+                                                           (match p10 with
+                                                            | XI p11 ->
+                                                              (match p11 with
+                                                               | XI p12 ->
+                                                                 (match p12 with
+                                                                  | XO p13 ->
+                                                                    (match p13 with
+                                                                    | XH ->
+                                                                    Some
+                                                                    ((app acc
+                                                                    (app ts
+                                                                    ((mk_punct
+                                                                    (Zpos (XI
+                                                                    (XO (XI
+                                                                    (XI (XI
+                                                                    (XO
+                                                                    XH)))))))) :: []))),
+                                                                    r'0)
+                                                                    | _ ->
+                                                                    None)
+                                                                  | _ -> None)
+                                                               | _ -> None)
+                                                            | _ -> None)
+                                                         | _ -> None)
+                                                      | _ -> None)
+                                                   | XO p8 ->
+                                                     (match p8 with
+                                                      | XO p9 ->
+                                                        (match p9 with
+                                                         | XI p10 ->
+                                                           (match p10 with
+                                                            | XI p11 ->
+                                                              (match p11 with
+                                                               | XO p12 ->
+                                                                 (match p12 with
+                                                                  | XH ->
+                                                                    elems n'
+                                                                    (skip_ws
+                                                                    r'0)
+                                                                    (Z.add i
+                                                                    (Zpos XH))
+                                                                    (app acc
+                                                                    (app ts
+                                                                    ((mk_punct
+                                                                    (Zpos (XO
+                                                                    (XO (XI
+                                                                    (XI (XO
+                                                                    XH))))))) :: [])))
+                                                                  | _ -> None)
+                                                               | _ -> None)
+                                                            | _ -> None)
+                                                         | _ -> None)
+                                                      | _ -> None)
+                                                   | XH -> None)
+                                                | _ -> None))
+                                          | None -> None)
+                                     in elems f (Z0 :: r') Z0 (open_ :: [])
+                                   | Zpos p6 ->
+                                     (match p6 with
+                                      | XI p7 ->
+                                        (match p7 with
+                                         | XI p8 ->
+                                           let rec elems n0 b0 i acc =
+                                             match n0 with
+                                             | O -> None
+                                             | S n' ->
+                                               (match g_tokens f b0
+                                                        (Z.add depth (Zpos
+                                                          XH)) i false with
+                                                | Some p9 ->
+                                                  let (ts, r0) = p9 in
+                                                  (match skip_ws r0 with
+                                                   | [] -> None
+                                                   | z2 :: r'0 ->
+                                                     (match z2 with
+                                                      | Zpos p10 ->
+                                                        (match p10 with
+                                                         | XI p11 ->
+                                                           (match p11 with
+                                                            | XO p12 ->
+                                                              (match p12 with
+                                                               | XI p13 ->
+                                                                 (match p13 with
+                                                                  | XI p14 ->
+                                                                    (match p14 with
+                                                                    | XI p15 ->
+                                                                    (match p15 with
+                                                                    | XO p16 ->
+                                                                    (match p16 with
+                                                                    | XH ->
+                                                                    Some
+                                                                    ((app acc
+                                                                    (app ts
+                                                                    ((mk_punct
+                                                                    (Zpos (XI
+                                                                    (XO (XI
+                                                                    (XI (XI
+                                                                    (XO
+                                                                    XH)))))))) :: []))),
+                                                                    r'0)
+                                                                    | _ ->
+                                                                    None)
+                                                                    | _ ->
+                                                                    None)
+                                                                    | _ ->
+                                                                    None)
+                                                                  | _ -> None)
+                                                               | _ -> None)
+                                                            | _ -> None)
+                                                         | XO p11 ->
+                                                           (match p11 with
+                                                            | XO p12 ->
+                                                              (match p12 with
+                                                               | XI p13 ->
+                                                                 (match p13 with
+                                                                  | XI p14 ->
+                                                                    (match p14 with
+                                                                    | XO p15 ->
+                                                                    (match p15 with
+                                                                    | XH ->
+                                                                    elems n'
+                                                                    (skip_ws
+                                                                    r'0)
+                                                                    (Z.add i
+                                                                    (Zpos XH))
+                                                                    (app acc
+                                                                    (app ts
+                                                                    ((mk_punct
+                                                                    (Zpos (XO
+                                                                    (XO (XI
+                                                                    (XI (XO
+                                                                    XH))))))) :: [])))
+                                                                    | _ ->
+                                                                    None)
+                                                                    | _ ->
+                                                                    None)
+                                                                  | _ -> None)
+                                                               | _ -> None)
+                                                            | _ -> None)
+                                                         | XH -> None)
+                                                      | _ -> None))
+                                                | None -> None)
+                                           in elems f ((Zpos (XI (XI
+                                                p8))) :: r') Z0 (open_ :: [])
+                                         | XO p8 ->
+                                           (match p8 with
+                                            | XI p9 ->
+                                              (match p9 with
+                                               | XI p10 ->
+                                                 (match p10 with
+                                                  | XI p11 ->
+                                                    (match p11 with
+                                                     | XI p12 ->
+                                                       let rec elems n0 b0 i acc =
+                                                         match n0 with
+                                                         | O -> None
+                                                         | S n' ->
+                                                           (match g_tokens f
+                                                                    b0
+                                                                    (Z.add
+                                                                    depth
+                                                                    (Zpos XH))
+                                                                    i false with
+                                                            | Some p13 ->
+                                                              let (ts, r0) =
+                                                                p13
+                                                              in
+                                                              (match 
+                                                               skip_ws r0 with
+                                                               | [] -> None
+                                                               | z2 :: r'0 ->
+                                                                 (match z2 with
+                                                                  | Zpos p14 ->
+                                                                    (match p14 with
+                                                                    | XI p15 ->
+                                                                    (match p15 with
+                                                                    | XO p16 ->
+                                                                    (match p16 with
+                                                                    | XI p17 ->
+                                                                    (match p17 with
+                                                                    | XI p18 ->
+                                                                    (match p18 with
+                                                                    | XI p19 ->
+                                                                    (match p19 with
+                                                                    | XO p20 ->
+                                                                    (match p20 with
+                                                                    | XH ->
+                                                                    Some
+                                                                    ((app acc
+                                                                    (app ts
+                                                                    ((mk_punct
+                                                                    (Zpos (XI
+                                                                    (XO (XI
+                                                                    (XI (XI
+                                                                    (XO
+                                                                    XH)))))))) :: []))),
+                                                                    r'0)
+                                                                    | _ ->
+                                                                    None)
+                                                                    | _ ->
+                                                                    None)
+                                                                    | _ ->
+                                                                    None)
+                                                                    | _ ->
+                                                                    None)
+                                                                    | _ ->
+                                                                    None)
+                                                                    | _ ->
+                                                                    None)
+                                                                    | XO p15 ->
+                                                                    (match p15 with
+                                                                    | XO p16 ->
+                                                                    (match p16 with
+                                                                    | XI p17 ->
+                                                                    (match p17 with
+                                                                    | XI p18 ->
+                                                                    (match p18 with
+                                                                    | XO p19 ->
+                                                                    (match p19 with
+                                                                    | XH ->
+                                                                    elems n'
+                                                                    (skip_ws
+                                                                    r'0)
+                                                                    (Z.add i
+                                                                    (Zpos XH))
+                                                                    (app acc
+                                                                    (app ts
+                                                                    ((mk_punct
+                                                                    (Zpos (XO
+                                                                    (XO (XI
+                                                                    (XI (XO
+                                                                    XH))))))) :: [])))
+                                                                    | _ ->
+                                                                    None)
+                                                                    | _ ->
+                                                                    None)
+                                                                    | _ ->
+                                                                    None)
+                                                                    | _ ->
+                                                                    None)
+                                                                    | _ ->
+                                                                    None)
+                                                                    | XH ->
+                                                                    None)
+                                                                  | _ -> None))
+                                                            | None -> None)
+                                                       in elems f ((Zpos (XI
+                                                            (XO (XI (XI (XI
+                                                            (XI
+                                                            p12))))))) :: r')
+                                                            Z0 (open_ :: [])
+                                                     | XO p12 ->
+                                                       (match p12 with
+                                                        | XI p13 ->
+                                                          let rec elems n0 b0 i acc =
+                                                            match n0 with
+                                                            | O -> None
+                                                            | S n' ->
+                                                              (match 
+                                                               g_tokens f b0
+                                                                 (Z.add depth
+                                                                   (Zpos XH))
+                                                                 i false with
+                                                               | Some p14 ->
+                                                                 let (
+                                                                   ts, r0) =
+                                                                   p14
+                                                                 in
+                                                                 (match 
+                                                                  skip_ws r0 with
+                                                                  | [] -> None
+                                                                  | z2 :: r'0 ->
+                                                                    (match z2 with
+                                                                    | Zpos p15 ->
+                                                                    (match p15 with
+                                                                    | XI p16 ->
+                                                                    (match p16 with
+                                                                    | XO p17 ->
+                                                                    (match p17 with
+                                                                    | XI p18 ->
+                                                                    (match p18 with
+                                                                    | XI p19 ->
+                                                                    (match p19 with
+                                                                    | XI p20 ->
+                                                                    (match p20 with
+                                                                    | XO p21 ->
+                                                                    (match p21 with
+                                                                    | XH ->
+                                                                    Some
+                                                                    ((app acc
+                                                                    (app ts
+                                                                    ((mk_punct
+                                                                    (Zpos (XI
+                                                                    (XO (XI
+                                                                    (XI (XI
+                                                                    (XO
+                                                                    XH)))))))) :: []))),
+                                                                    r'0)
+                                                                    | _ ->
+                                                                    None)
+                                                                    | _ ->
+                                                                    None)
+                                                                    | _ ->
+                                                                    None)
+                                                                    | _ ->
+                                                                    None)
+                                                                    | _ ->
+                                                                    None)
+                                                                    | _ ->
+                                                                    None)
+                                                                    | XO p16 ->
+                                                                    (match p16 with
+                                                                    | XO p17 ->
+                                                                    (match p17 with
+                                                                    | XI p18 ->
+                                                                    (match p18 with
+                                                                    | XI p19 ->
+                                                                    (match p19 with
+                                                                    | XO p20 ->
+                                                                    (match p20 with
+                                                                    | XH ->
+                                                                    elems n'
+                                                                    (skip_ws
+                                                                    r'0)
+                                                                    (Z.add i
+                                                                    (Zpos XH))
+                                                                    (app acc
+                                                                    (app ts
+                                                                    ((mk_punct
+                                                                    (Zpos (XO
+                                                                    (XO (XI
+                                                                    (XI (XO
+                                                                    XH))))))) :: [])))
+                                                                    | _ ->
+                                                                    None)
+                                                                    | _ ->
+                                                                    None)
+                                                                    | _ ->
+                                                                    None)
+                                                                    | _ ->
+                                                                    None)
+                                                                    | _ ->
+                                                                    None)
+                                                                    | XH ->
+                                                                    None)
+                                                                    | _ ->
+                                                                    None))
+                                                               | None -> None)
+                                                          in elems f ((Zpos
+                                                               (XI (XO (XI
+                                                               (XI (XI (XO
+                                                               (XI
+                                                               p13)))))))) :: r')
+                                                               Z0
+                                                               (open_ :: [])
+                                                        | XO p13 ->
+                                                          let rec elems n0 b0 i acc =
+                                                            match n0 with
+                                                            | O -> None
+                                                            | S n' ->
+                                                              (match 
+                                                               g_tokens f b0
+                                                                 (Z.add depth
+                                                                   (Zpos XH))
+                                                                 i false with
+                                                               | Some p14 ->
+                                                                 let (
+                                                                   ts, r0) =
+                                                                   p14
+                                                                 in
+                                                                 (match 
+                                                                  skip_ws r0 with
+                                                                  | [] -> None
+                                                                  | z2 :: r'0 ->
+                                                                    (match z2 with
+                                                                    | Zpos p15 ->
+                                                                    (match p15 with
+                                                                    | XI p16 ->
+                                                                    (match p16 with
+                                                                    | XO p17 ->
+                                                                    (match p17 with
+                                                                    | XI p18 ->
+                                                                    (match p18 with
+                                                                    | XI p19 ->
+                                                                    (match p19 with
+                                                                    | XI p20 ->
+                                                                    (match p20 with
+                                                                    | XO p21 ->
+                                                                    (match p21 with
+                                                                    | XH ->
+                                                                    Some
+                                                                    ((app acc
+                                                                    (app ts
+                                                                    ((mk_punct
+                                                                    (Zpos (XI
+                                                                    (XO (XI
+                                                                    (XI (XI
+                                                                    (XO
+                                                                    XH)))))))) :: []))),
+                                                                    r'0)
+                                                                    | _ ->
+                                                                    None)
+                                                                    | _ ->
+                                                                    None)
+                                                                    | _ ->
+                                                                    None)
+                                                                    | _ ->
+                                                                    None)
+                                                                    | _ ->
+                                                                    None)
+                                                                    | _ ->
+                                                                    None)
+                                                                    | XO p16 ->
+                                                                    (match p16 with
+                                                                    | XO p17 ->
+                                                                    (match p17 with
+                                                                    | XI p18 ->
+                                                                    (match p18 with
+                                                                    | XI p19 ->
+                                                                    (match p19 with
+                                                                    | XO p20 ->
+                                                                    (match p20 with
+                                                                    | XH ->
+                                                                    elems n'
+                                                                    (skip_ws
+                                                                    r'0)
+                                                                    (Z.add i
+                                                                    (Zpos XH))
+                                                                    (app acc
+                                                                    (app ts
+                                                                    ((mk_punct
+                                                                    (Zpos (XO
+                                                                    (XO (XI
+                                                                    (XI (XO
+                                                                    XH))))))) :: [])))
+                                                                    | _ ->
+                                                                    None)
+                                                                    | _ ->
+                                                                    None)
+                                                                    | _ ->
+                                                                    None)
+                                                                    | _ ->
+                                                                    None)
+                                                                    | _ ->
+                                                                    None)
+                                                                    | XH ->
+                                                                    None)
+                                                                    | _ ->
+                                                                    None))
+                                                               | None -> None)
+                                                          in elems f ((Zpos
+                                                               (XI (XO (XI
+                                                               (XI (XI (XO
+                                                               (XO
+                                                               p13)))))))) :: r')
+                                                               Z0
+                                                               (open_ :: [])
+                                                        | XH ->
+                                                          Some
+                                                            ((open_ :: (
+                                                            (mk_punct (Zpos
+                                                              (XI (XO (XI (XI
+                                                              (XI (XO
+                                                              XH)))))))) :: [])),
+                                                            r'))
+                                                     | XH ->
+                                                       let rec elems n0 b0 i acc =
+                                                         match n0 with
+                                                         | O -> None
+                                                         | S n' ->
+                                                           (match g_tokens f
+                                                                    b0
+                                                                    (Z.add
+                                                                    depth
+                                                                    (Zpos XH))
+                                                                    i false with
+                                                            | Some p12 ->
+                                                              let (ts, r0) =
+                                                                p12
+                                                              in
+                                                              (match 
+                                                               skip_ws r0 with
+                                                               | [] -> None
+                                                               | z2 :: r'0 ->
+                                                                 (match z2 with
+                                                                  | Zpos p13 ->
+                                                                    (match p13 with
+                                                                    | XI p14 ->
+                                                                    (match p14 with
+                                                                    | XO p15 ->
+                                                                    (match p15 with
+                                                                    | XI p16 ->
+                                                                    (match p16 with
+                                                                    | XI p17 ->
+                                                                    (match p17 with
+                                                                    | XI p18 ->
+                                                                    (match p18 with
+                                                                    | XO p19 ->
+                                                                    (match p19 with
+                                                                    | XH ->
+                                                                    Some
+                                                                    ((app acc
+                                                                    (app ts
+                                                                    ((mk_punct
+                                                                    (Zpos (XI
+                                                                    (XO (XI
+                                                                    (XI (XI
+                                                                    (XO
+                                                                    XH)))))))) :: []))),
+                                                                    r'0)
+                                                                    | _ ->
+                                                                    None)
+                                                                    | _ ->
+                                                                    None)
+                                                                    | _ ->
+                                                                    None)
+                                                                    | _ ->
+                                                                    None)
+                                                                    | _ ->
+                                                                    None)
+                                                                    | _ ->
+                                                                    None)
+                                                                    | XO p14 ->
+                                                                    (match p14 with
+                                                                    | XO p15 ->
+                                                                    (match p15 with
+                                                                    | XI p16 ->
+                                                                    (match p16 with
+                                                                    | XI p17 ->
+                                                                    (match p17 with
+                                                                    | XO p18 ->
+                                                                    (match p18 with
+                                                                    | XH ->
+                                                                    elems n'
+                                                                    (skip_ws
+                                                                    r'0)
+                                                                    (Z.add i
+                                                                    (Zpos XH))
+                                                                    (app acc
+                                                                    (app ts
+                                                                    ((mk_punct
+                                                                    (Zpos (XO
+                                                                    (XO (XI
+                                                                    (XI (XO
+                                                                    XH))))))) :: [])))
+                                                                    | _ ->
+                                                                    None)
+                                                                    | _ ->
+                                                                    None)
+                                                                    | _ ->
+                                                                    None)
+                                                                    | _ ->
+                                                                    None)
+                                                                    | _ ->
+                                                                    None)
+                                                                    | XH ->
+                                                                    None)
+                                                                  | _ -> None))
+                                                            | None -> None)
+                                                       in elems f ((Zpos (XI
+                                                            (XO (XI (XI (XI
+                                                            XH)))))) :: r')
+                                                            Z0 (open_ :: []))
+                                                  | XO p11 ->
+                                                    let rec elems n0 b0 i acc =
+                                                      match n0 with
+                                                      | O -> None
+                                                      | S n' ->
+                                                        (match g_tokens f b0
+                                                                 (Z.add depth
+                                                                   (Zpos XH))
+                                                                 i false with
+                                                         | Some p12 ->
+                                                           let (ts, r0) = p12
+                                                           in
+                                                           (match skip_ws r0 with
+                                                            | [] -> None
+                                                            | z2 :: r'0 ->
+                                                              (match z2 with
+                                                               | Zpos p13 ->
+                                                                 (match p13 with
+                                                                  | XI p14 ->
+                                                                    (match p14 with
+                                                                    | XO p15 ->
+                                                                    (match p15 with
+                                                                    | XI p16 ->
+                                                                    (match p16 with
+                                                                    | XI p17 ->
+                                                                    (match p17 with
+                                                                    | XI p18 ->
+                                                                    (match p18 with
+                                                                    | XO p19 ->
+                                                                    (match p19 with
+                                                                    | XH ->
+                                                                    Some
+                                                                    ((app acc
+                                                                    (app ts
+                                                                    ((mk_punct
+                                                                    (Zpos (XI
+                                                                    (XO (XI
+                                                                    (XI (XI
+                                                                    (XO
+                                                                    XH)))))))) :: []))),
+                                                                    r'0)
+                                                                    | _ ->
+                                                                    None)
+                                                                    | _ ->
+                                                                    None)
+                                                                    | _ ->
+                                                                    None)
+                                                                    | _ ->
+                                                                    None)
+                                                                    | _ ->
+                                                                    None)
+                                                                    | _ ->
+                                                                    None)
+                                                                  | XO p14 ->
+                                                                    (match p14 with
+                                                                    | XO p15 ->
+                                                                    (match p15 with
+                                                                    | XI p16 ->
+                                                                    (match p16 with
+                                                                    | XI p17 ->
+                                                                    (match p17 with
+                                                                    | XO p18 ->
+                                                                    (match p18 with
+                                                                    | XH ->
+                                                                    elems n'
+                                                                    (skip_ws
+                                                                    r'0)
+                                                                    (Z.add i
+                                                                    (Zpos XH))
+                                                                    (app acc
+                                                                    (app ts
+                                                                    ((mk_punct
+                                                                    (Zpos (XO
+                                                                    (XO (XI
+                                                                    (XI (XO
+                                                                    XH))))))) :: [])))
+                                                                    | _ ->
+                                                                    None)
+                                                                    | _ ->
+                                                                    None)
+                                                                    | _ ->
+                                                                    None)
+                                                                    | _ ->
+                                                                    None)
+                                                                    | _ ->
+                                                                    None)
+                                                                  | XH -> None)
+                                                               | _ -> None))
+                                                         | None -> None)
+                                                    in elems f ((Zpos (XI (XO
+                                                         (XI (XI (XO
+                                                         p11)))))) :: r') Z0
+                                                         (open_ :: [])
+                                                  | XH ->
+                                                    let rec elems n0 b0 i acc =
+                                                      match n0 with
+                                                      | O -> None
+                                                      | S n' ->
+                                                        (match g_tokens f b0
+                                                                 (Z.add depth
+                                                                   (Zpos XH))
+                                                                 i false with
+                                                         | Some p11 ->
+                                                           let (ts, r0) = p11
+                                                           in
+                                                           (match skip_ws r0 with
+                                                            | [] -> None
+                                                            | z2 :: r'0 ->
+                                                              (match z2 with
+                                                               | Zpos p12 ->
+                                                                 (match p12 with
+                                                                  | XI p13 ->
+                                                                    (match p13 with
+                                                                    | XO p14 ->
+                                                                    (match p14 with
+                                                                    | XI p15 ->
+                                                                    (match p15 with
+                                                                    | XI p16 ->
+                                                                    (match p16 with
+                                                                    | XI p17 ->
+                                                                    (match p17 with
+                                                                    | XO p18 ->
+                                                                    (match p18 with
+                                                                    | XH ->
+                                                                    Some
+                                                                    ((app acc
+                                                                    (app ts
+                                                                    ((mk_punct
+                                                                    (Zpos (XI
+                                                                    (XO (XI
+                                                                    (XI (XI
+                                                                    (XO
+                                                                    XH)))))))) :: []))),
+                                                                    r'0)
+                                                                    | _ ->
+                                                                    None)
+                                                                    | _ ->
+                                                                    None)
+                                                                    | _ ->
+                                                                    None)
+                                                                    | _ ->
+                                                                    None)
+                                                                    | _ ->
+                                                                    None)
+                                                                    | _ ->
+                                                                    None)
+                                                                  | XO p13 ->
+                                                                    (match p13 with
+                                                                    | XO p14 ->
+                                                                    (match p14 with
+                                                                    | XI p15 ->
+                                                                    (match p15 with
+                                                                    | XI p16 ->
+                                                                    (match p16 with
+                                                                    | XO p17 ->
+                                                                    (match p17 with
+                                                                    | XH ->
+                                                                    elems n'
+                                                                    (skip_ws
+                                                                    r'0)
+                                                                    (Z.add i
+                                                                    (Zpos XH))
+                                                                    (app acc
+                                                                    (app ts
+                                                                    ((mk_punct
+                                                                    (Zpos (XO
+                                                                    (XO (XI
+                                                                    (XI (XO
+                                                                    XH))))))) :: [])))
+                                                                    | _ ->
+                                                                    None)
+                                                                    | _ ->
+                                                                    None)
+                                                                    | _ ->
+                                                                    None)
+                                                                    | _ ->
+                                                                    None)
+                                                                    | _ ->
+                                                                    None)
+                                                                  | XH -> None)
+                                                               | _ -> None))
+                                                         | None -> None)
+                                                    in elems f ((Zpos (XI (XO
+                                                         (XI (XI
+                                                         XH))))) :: r') Z0
+                                                         (open_ :: []))
+                                               | XO p10 ->
+                                                 let rec elems n0 b0 i acc =
+                                                   match n0 with
+                                                   | O -> None
+                                                   | S n' ->
+                                                     (match g_tokens f b0
+                                                              (Z.add depth
+                                                                (Zpos XH)) i
+                                                              false with
+                                                      | Some p11 ->
+                                                        let (ts, r0) = p11 in
+                                                        (match skip_ws r0 with
+                                                         | [] -> None
+                                                         | z2 :: r'0 ->
+                                                           (match z2 with
+                                                            | Zpos p12 ->
+                                                              (match p12 with
+                                                               | XI p13 ->
+                                                                 (match p13 with
+                                                                  | XO p14 ->
+                                                                    (match p14 with
+                                                                    | XI p15 ->
+                                                                    (match p15 with
+                                                                    | XI p16 ->
+                                                                    (match p16 with
+                                                                    | XI p17 ->
+                                                                    (match p17 with
+                                                                    | XO p18 ->
+                                                                    (match p18 with
+                                                                    | XH ->
+                                                                    Some
+                                                                    ((app acc
+                                                                    (app ts
+                                                                    ((mk_punct
+                                                                    (Zpos (XI
+                                                                    (XO (XI
+                                                                    (XI (XI
+                                                                    (XO
+                                                                    XH)))))))) :: []))),
+                                                                    r'0)
+                                                                    | _ ->
+                                                                    None)
+                                                                    | _ ->
+                                                                    None)
+                                                                    | _ ->
+                                                                    None)
+                                                                    | _ ->
+                                                                    None)
+                                                                    | _ ->
+                                                                    None)
+                                                                  | _ -> None)
+                                                               | XO p13 ->
+                                                                 (match p13 with
+                                                                  | XO p14 ->
+                                                                    (match p14 with
+                                                                    | XI p15 ->
+                                                                    (match p15 with
+                                                                    | XI p16 ->
+                                                                    (match p16 with
+                                                                    | XO p17 ->
+                                                                    (match p17 with
+                                                                    | XH ->
+                                                                    elems n'
+                                                                    (skip_ws
+                                                                    r'0)
+                                                                    (Z.add i
+                                                                    (Zpos XH))
+                                                                    (app acc
+                                                                    (app ts
+                                                                    ((mk_punct
+                                                                    (Zpos (XO
+                                                                    (XO (XI
+                                                                    (XI (XO
+                                                                    XH))))))) :: [])))
+                                                                    | _ ->
+                                                                    None)
+                                                                    | _ ->
+                                                                    None)
+                                                                    | _ ->
+                                                                    None)
+                                                                    | _ ->
+                                                                    None)
+                                                                  | _ -> None)
+                                                               | XH -> None)
+                                                            | _ -> None))
+                                                      | None -> None)
+                                                 in elems f ((Zpos (XI (XO
+                                                      (XI (XO p10))))) :: r')
+                                                      Z0 (open_ :: [])
+                                               | XH ->
+                                                 let rec elems n0 b0 i acc =
+                                                   match n0 with
+                                                   | O -> None
+                                                   | S n' ->
+                                                     (match g_tokens f b0
+                                                              (Z.add depth
+                                                                (Zpos XH)) i
+                                                              false with
+                                                      | Some p10 ->
+                                                        let (ts, r0) = p10 in
+                                                        (match skip_ws r0 with
+                                                         | [] -> None
+                                                         | z2 :: r'0 ->
+                                                           (match z2 with
+                                                            | Zpos p11 ->
+                                                              (match p11 with
+                                                               | XI p12 ->
+                                                                 (match p12 with
+                                                                  | XO p13 ->
+                                                                    (match p13 with
+                                                                    | XI p14 ->
+                                                                    (match p14 with
+                                                                    | XI p15 ->
+                                                                    (match p15 with
+                                                                    | XI p16 ->
+                                                                    (match p16 with
+                                                                    | XO p17 ->
+                                                                    (match p17 with
+                                                                    | XH ->
+                                                                    Some
+                                                                    ((app acc
+                                                                    (app ts
+                                                                    ((mk_punct
+                                                                    (Zpos (XI
+                                                                    (XO (XI
+                                                                    (XI (XI
+                                                                    (XO
+                                                                    XH)))))))) :: []))),
+                                                                    r'0)
+                                                                    | _ ->
+                                                                    None)
+                                                                    | _ ->
+                                                                    None)
+                                                                    | _ ->
+                                                                    None)
+                                                                    | _ ->
+                                                                    None)
+                                                                    | _ ->
+                                                                    None)
+                                                                  | _ -> None)
+                                                               | XO p12 ->
+                                                                 (match p12 with
+                                                                  | XO p13 ->
+                                                                    (match p13 with
+                                                                    | XI p14 ->
+                                                                    (match p14 with
+                                                                    | XI p15 ->
+                                                                    (match p15 with
+                                                                    | XO p16 ->
+                                                                    (match p16 with
+                                                                    | XH ->
+                                                                    elems n'
+                                                                    (skip_ws
+                                                                    r'0)
+                                                                    (Z.add i
+                                                                    (Zpos XH))
+                                                                    (app acc
+                                                                    (app ts
+                                                                    ((mk_punct
+                                                                    (Zpos (XO
+                                                                    (XO (XI
+                                                                    (XI (XO
+                                                                    XH))))))) :: [])))
+                                                                    | _ ->
+                                                                    None)
+                                                                    | _ ->
+                                                                    None)
+                                                                    | _ ->
+                                                                    None)
+                                                                    | _ ->
+                                                                    None)
+                                                                  | _ -> None)
+                                                               | XH -> None)
+                                                            | _ -> None))
+                                                      | None -> None)
+                                                 in elems f ((Zpos (XI (XO
+                                                      (XI XH)))) :: r') Z0
+                                                      (open_ :: []))
+                                            | XO p9 ->
+                                              let rec elems n0 b0 i acc =
+                                                match n0 with
+                                                | O -> None
+                                                | S n' ->
+                                                  (match g_tokens f b0
+                                                           (Z.add depth (Zpos
+                                                             XH)) i false with
+                                                   | Some p10 ->
+                                                     let (ts, r0) = p10 in
+                                                     (match skip_ws r0 with
+                                                      | [] -> None
+                                                      | z2 :: r'0 ->
+                                                        (match z2 with
+                                                         | Zpos p11 ->
+                                                           (match p11 with
+                                                            | XI p12 ->
+                                                              (match p12 with
+                                                               | XO p13 ->
+                                                                 (match p13 with
+                                                                  | XI p14 ->
+                                                                    (match p14 with
+                                                                    | XI p15 ->
+                                                                    (match p15 with
+                                                                    | XI p16 ->
+                                                                    (match p16 with
+                                                                    | XO p17 ->
+                                                                    (match p17 with
+                                                                    | XH ->
+                                                                    Some
+                                                                    ((app acc
+                                                                    (app ts
+                                                                    ((mk_punct
+                                                                    (Zpos (XI
+                                                                    (XO (XI
+                                                                    (XI (XI
+                                                                    (XO
+                                                                    XH)))))))) :: []))),
+                                                                    r'0)
+                                                                    | _ ->
+                                                                    None)
+                                                                    | _ ->
+                                                                    None)
+                                                                    | _ ->
+                                                                    None)
+                                                                    | _ ->
+                                                                    None)
+                                                                  | _ -> None)
+                                                               | _ -> None)
+                                                            | XO p12 ->
+                                                              (match p12 with
+                                                               | XO p13 ->
+                                                                 (match p13 with
+                                                                  | XI p14 ->
+                                                                    (match p14 with
+                                                                    | XI p15 ->
+                                                                    (match p15 with
+                                                                    | XO p16 ->
+                                                                    (match p16 with
+                                                                    | XH ->
+                                                                    elems n'
+                                                                    (skip_ws
+                                                                    r'0)
+                                                                    (Z.add i
+                                                                    (Zpos XH))
+                                                                    (app acc
+                                                                    (app ts
+                                                                    ((mk_punct
+                                                                    (Zpos (XO
+                                                                    (XO (XI
+                                                                    (XI (XO
+                                                                    XH))))))) :: [])))
+                                                                    | _ ->
+                                                                    None)
+                                                                    | _ ->
+                                                                    None)
+                                                                    | _ ->
+                                                                    None)
+                                                                  | _ -> None)
+                                                               | _ -> None)
+                                                            | XH -> None)
+                                                         | _ -> None))
+                                                   | None -> None)
+                                              in elems f ((Zpos (XI (XO (XO
+                                                   p9)))) :: r') Z0
+                                                   (open_ :: [])
+                                            | XH ->
+                                              let rec elems n0 b0 i acc =
+                                                match n0 with
+                                                | O -> None
+                                                | S n' ->
+                                                  (match g_tokens f b0
+                                                           (Z.add depth (Zpos
+                                                             XH)) i false with
+                                                   | Some p9 ->
+                                                     let (ts, r0) = p9 in
+                                                     (match skip_ws r0 with
+                                                      | [] -> None
+                                                      | z2 :: r'0 ->
+                                                        (match z2 with
+                                                         | Zpos p10 ->
+                                                           (match p10 with
+                                                            | XI p11 ->
+                                                              (match p11 with
+                                                               | XO p12 ->
+                                                                 (match p12 with
+                                                                  | XI p13 ->
+                                                                    (match p13 with
+                                                                    | XI p14 ->
+                                                                    (match p14 with
+                                                                    | XI p15 ->
+                                                                    (match p15 with
+                                                                    | XO p16 ->
+                                                                    (match p16 with
+                                                                    | XH ->
+                                                                    Some
+                                                                    ((app acc
+                                                                    (app ts
+                                                                    ((mk_punct
+                                                                    (Zpos (XI
+                                                                    (XO (XI
+                                                                    (XI (XI
+                                                                    (XO
+                                                                    XH)))))))) :: []))),
+                                                                    r'0)
+                                                                    | _ ->
+                                                                    None)
+                                                                    | _ ->
+                                                                    None)
+                                                                    | _ ->
+                                                                    None)
+                                                                    | _ ->
+                                                                    None)
+                                                                  | _ -> None)
+                                                               | _ -> None)
+                                                            | XO p11 ->
+                                                              (match p11 with
+                                                               | XO p12 ->
+                                                                 (match p12 with
+                                                                  | XI p13 ->
+                                                                    (match p13 with
+                                                                    | XI p14 ->
+                                                                    (match p14 with
+                                                                    | XO p15 ->
+                                                                    (match p15 with
+                                                                    | XH ->
+                                                                    elems n'
+                                                                    (skip_ws
+                                                                    r'0)
+                                                                    (Z.add i
+                                                                    (Zpos XH))
+                                                                    (app acc
+                                                                    (app ts
+                                                                    ((mk_punct
+                                                                    (Zpos (XO
+                                                                    (XO (XI
+                                                                    (XI (XO
+                                                                    XH))))))) :: [])))
+                                                                    | _ ->
+                                                                    None)
+                                                                    | _ ->
+                                                                    None)
+                                                                    | _ ->
+                                                                    None)
+                                                                  | _ -> None)
+                                                               | _ -> None)
+                                                            | XH -> None)
+                                                         | _ -> None))
+                                                   | None -> None)
+                                              in elems f ((Zpos (XI (XO
+                                                   XH))) :: r') Z0
+                                                   (open_ :: []))
+                                         | XH ->
+                                           let rec elems n0 b0 i acc =
+                                             match n0 with
+                                             | O -> None
+                                             | S n' ->
+                                               (match g_tokens f b0
+                                                        (Z.add depth (Zpos
+                                                          XH)) i false with
+                                                | Some p8 ->
+                                                  let (ts, r0) = p8 in
+                                                  (match skip_ws r0 with
+                                                   | [] -> None
+                                                   | z2 :: r'0 ->
+                                                     (match z2 with
+                                                      | Zpos p9 ->
+                                                        (match p9 with
+                                                         | XI p10 ->
+                                                           (match p10 with
+                                                            | XO p11 ->
+                                                              (match p11 with
+                                                               | XI p12 ->
+                                                                 (match p12 with
+                                                                  | XI p13 ->
+                                                                    (match p13 with
+                                                                    | XI p14 ->
+                                                                    (match p14 with
+                                                                    | XO p15 ->
+                                                                    (match p15 with
+                                                                    | XH ->
+                                                                    Some
+                                                                    ((app acc
+                                                                    (app ts
+                                                                    ((mk_punct
+                                                                    (Zpos (XI
+                                                                    (XO (XI
+                                                                    (XI (XI
+                                                                    (XO
+                                                                    XH)))))))) :: []))),
+                                                                    r'0)
+                                                                    | _ ->
+                                                                    None)
+                                                                    | _ ->
+                                                                    None)
+                                                                    | _ ->
+                                                                    None)
+                                                                  | _ -> None)
+                                                               | _ -> None)
+                                                            | _ -> None)
+                                                         | XO p10 ->
+                                                           (match p10 with
+                                                            | XO p11 ->
+                                                              (match p11 with
+                                                               | XI p12 ->
+                                                                 (match p12 with
+                                                                  | XI p13 ->
+                                                                    (match p13 with
+                                                                    | XO p14 ->
+                                                                    (match p14 with
+                                                                    | XH ->
+                                                                    elems n'
+                                                                    (skip_ws
+                                                                    r'0)
+                                                                    (Z.add i
+                                                                    (Zpos XH))
+                                                                    (app acc
+                                                                    (app ts
+                                                                    ((mk_punct
+                                                                    (Zpos (XO
+                                                                    (XO (XI
+                                                                    (XI (XO
+                                                                    XH))))))) :: [])))
+                                                                    | _ ->
+                                                                    None)
+                                                                    | _ ->
+                                                                    None)
+                                                                  | _ -> None)
+                                                               | _ -> None)
+                                                            | _ -> None)
+                                                         | XH -> None)
+                                                      | _ -> None))
+                                                | None -> None)
+                                           in elems f ((Zpos (XI XH)) :: r')
+                                                Z0 (open_ :: []))
+                                      | XO p7 ->
+                                        let rec elems n0 b0 i acc =
+                                          match n0 with
+                                          | O -> None
+                                          | S n' ->
+                                            (match g_tokens f b0
+                                                     (Z.add depth (Zpos XH))
+                                                     i false with
+                                             | Some p8 ->
+                                               let (ts, r0) = p8 in
+                                               (match skip_ws r0 with
+                                                | [] -> None
+                                                | z2 :: r'0 ->
+                                                  (match z2 with
+                                                   | Zpos p9 ->
+                                                     (match p9 with
+                                                      | XI p10 ->
+                                                        (match p10 with
+                                                         | XO p11 ->
+                                                           (match p11 with
+                                                            | XI p12 ->
+                                                              (match p12 with
+                                                               | XI p13 ->
+                                                                 (match p13 with
+                                                                  | XI p14 ->
+                                                                    (match p14 with
+                                                                    | XO p15 ->
+                                                                    (match p15 with
+                                                                    | XH ->
+                                                                    Some
+                                                                    ((app acc
+                                                                    (app ts
+                                                                    ((mk_punct
+                                                                    (Zpos (XI
+                                                                    (XO (XI
+                                                                    (XI (XI
+                                                                    (XO
+                                                                    XH)))))))) :: []))),
+                                                                    r'0)
+                                                                    | _ ->
+                                                                    None)
+                                                                    | _ ->
+                                                                    None)
+                                                                  | _ -> None)
+                                                               | _ -> None)
+                                                            | _ -> None)
+                                                         | _ -> None)
+                                                      | XO p10 ->
+                                                        (match p10 with
+                                                         | XO p11 ->
+                                                           (match p11 with
+                                                            | XI p12 ->
+                                                              (match p12 with
+                                                               | XI p13 ->
+                                                                 (match p13 with
+                                                                  | XO p14 ->
+                                                                    (match p14 with
+                                                                    | XH ->
+                                                                    elems n'
+                                                                    (skip_ws
+                                                                    r'0)
+                                                                    (Z.add i
+                                                                    (Zpos XH))
+                                                                    (app acc
+                                                                    (app ts
+                                                                    ((mk_punct
+                                                                    (Zpos (XO
+                                                                    (XO (XI
+                                                                    (XI (XO
+                                                                    XH))))))) :: [])))
+                                                                    | _ ->
+                                                                    None)
+                                                                  | _ -> None)
+                                                               | _ -> None)
+                                                            | _ -> None)
+                                                         | _ -> None)
+                                                      | XH -> None)
+                                                   | _ -> None))
+                                             | None -> None)
+                                        in elems f ((Zpos (XO p7)) :: r') Z0
+                                             (open_ :: [])
+                                      | XH ->
+                                        let rec elems n0 b0 i acc =
+                                          match n0 with
+                                          | O -> None
+                                          | S n' ->
+                                            (match g_tokens f b0
+                                                     (Z.add depth (Zpos XH))
+                                                     i false with
+                                             | Some p7 ->
+                                               let (ts, r0) = p7 in
+                                               (match skip_ws r0 with
+                                                | [] -> None
+                                                | z2 :: r'0 ->
+                                                  (match z2 with
+                                                   | Zpos p8 ->
+                                                     (match p8 with
+                                                      | XI p9 ->
+                                                        (match p9 with
+                                                         | XO p10 ->
+                                                           (match p10 with
+                                                            | XI p11 ->
+                                                              (match p11 with
+                                                               | XI p12 ->
+                                                                 (match p12 with
+                                                                  | XI p13 ->
+                                                                    (match p13 with
+                                                                    | XO p14 ->
+                                                                    (match p14 with
+                                                                    | XH ->
+                                                                    Some
+                                                                    ((app acc
+                                                                    (app ts
+                                                                    ((mk_punct
+                                                                    (Zpos (XI
+                                                                    (XO (XI
+                                                                    (XI (XI
+                                                                    (XO
+                                                                    XH)))))))) :: []))),
+                                                                    r'0)
+                                                                    | _ ->
+                                                                    None)
+                                                                    | _ ->
+                                                                    None)
+                                                                  | _ -> None)
+                                                               | _ -> None)
+                                                            | _ -> None)
+                                                         | _ -> None)
+                                                      | XO p9 ->
+                                                        (match p9 with
+                                                         | XO p10 ->
+                                                           (match p10 with
+                                                            | XI p11 ->
+                                                              (match p11 with
+                                                               | XI p12 ->
+                                                                 (match p12 with
+                                                                  | XO p13 ->
+                                                                    (match p13 with
+                                                                    | XH ->
+                                                                    elems n'
+                                                                    (skip_ws
+                                                                    r'0)
+                                                                    (Z.add i
+                                                                    (Zpos XH))
+                                                                    (app acc
+                                                                    (app ts
+                                                                    ((mk_punct
+                                                                    (Zpos (XO
+                                                                    (XO (XI
+                                                                    (XI (XO
+                                                                    XH))))))) :: [])))
+                                                                    | _ ->
+                                                                    None)
+                                                                  | _ -> None)
+                                                               | _ -> None)
+                                                            | _ -> None)
+                                                         | _ -> None)
+                                                      | XH -> None)
+                                                   | _ -> None))
+                                             | None -> None)
+                                        in elems f ((Zpos XH) :: r') Z0
+                                             (open_ :: []))
+                                   | Zneg p6 ->
+                                     let rec elems n0 b0 i acc =
+                                       match n0 with
+                                       | O -> None
+                                       | S n' ->
+                                         (match g_tokens f b0
+                                                  (Z.add depth (Zpos XH)) i
+                                                  false with
+                                          | Some p7 ->
+                                            let (ts, r0) = p7 in
+                                            (match skip_ws r0 with
+                                             | [] -> None
+                                             | z2 :: r'0 ->
+                                               (match z2 with
+                                                | Zpos p8 ->
+                                                  (match p8 with
+                                                   | XI p9 ->
+                                                     (match p9 with
+                                                      | XO p10 ->
+                                                        (match p10 with
+                                                         | XI p11 ->
+                                                           (match p11 with
+                                                            | XI p12 ->
+                                                              (match p12 with
+                                                               | XI p13 ->
+                                                                 (match p13 with
+                                                                  | XO p14 ->
+                                                                    (match p14 with
+                                                                    | XH ->
+                                                                    Some
+                                                                    ((app acc
+                                                                    (app ts
+                                                                    ((mk_punct
+                                                                    (Zpos (XI
+                                                                    (XO (XI
+                                                                    (XI (XI
+                                                                    (XO
+                                                                    XH)))))))) :: []))),
+                                                                    r'0)
+                                                                    | _ ->
+                                                                    None)
+                                                                  | _ -> None)
+                                                               | _ -> None)
+                                                            | _ -> None)
+                                                         | _ -> None)
+                                                      | _ -> None)
+                                                   | XO p9 ->
+                                                     (match p9 with
+                                                      | XO p10 ->
+                                                        (match p10 with
+                                                         | XI p11 ->
+                                                           (match p11 with
+                                                            | XI p12 ->
+                                                              (match p12 with
+                                                               | XO p13 ->
+                                                                 (match p13 with
+                                                                  | XH ->
+                                                                    elems n'
+                                                                    (skip_ws
+                                                                    r'0)
+                                                                    (Z.add i
+                                                                    (Zpos XH))
+                                                                    (app acc
+                                                                    (app ts
+                                                                    ((mk_punct
+                                                                    (Zpos (XO
+                                                                    (XO (XI
+                                                                    (XI (XO
+                                                                    XH))))))) :: [])))
+                                                                  | _ -> None)
+                                                               | _ -> None)
+                                                            | _ -> None)
+                                                         | _ -> None)
+                                                      | _ -> None)
+                                                   | XH -> None)
+                                                | _ -> None))
+                                          | None -> None)
+                                     in elems f ((Zneg p6) :: r') Z0
+                                          (open_ :: [])))
+                             | _ ->
+                               (match g_value (S f) b with
+                                | Some r0 ->
+                                  Some
+                                    (((mk_scalar (consumed b r0) depth index
+                                        iskey) :: []), r0)
+                                | None -> None))
+                          | XH ->
+                            (match g_value (S f) b with
+                             | Some r0 ->
+                               Some
+                                 (((mk_scalar (consumed b r0) depth index
+                                     iskey) :: []), r0)
+                             | None -> None))
+                       | _ ->
+                         (match g_value (S f) b with
+                          | Some r0 ->
+                            Some
+                              (((mk_scalar (consumed b r0) depth index iskey) :: []),
+                              r0)
+                          | None -> None))
+                    | _ ->
+                      (match g_value (S f) b with
+                       | Some r0 ->
+                         Some
+                           (((mk_scalar (consumed b r0) depth index iskey) :: []),
+                           r0)
+                       | None -> None))
+                 | _ ->
+                   (match g_value (S f) b with
+                    | Some r0 ->
+                      Some
+                        (((mk_scalar (consumed b r0) depth index iskey) :: []),
+                        r0)
+                    | None -> None))
+              | _ ->
+                (match g_value (S f) b with
+                 | Some r0 ->
+                   Some
+                     (((mk_scalar (consumed b r0) depth index iskey) :: []),
+                     r0)
+                 | None -> None))
+           | _ ->
+             (match g_value (S f) b with
+              | Some r0 ->
+                Some (((mk_scalar (consumed b r0) depth index iskey) :: []),
+                  r0)
+              | None -> None))
+        | _ ->
+          (match g_value (S f) b with
+           | Some r0 ->
+             Some (((mk_scalar (consumed b r0) depth index iskey) :: []), r0)
+           | None -> None)))
+
+(** val spec_tokens : bytes -> stoken list option **)
+
+let spec_tokens b =
+  match g_tokens (S (length b)) (skip_ws b) Z0 Z0 false with
+  | Some p ->
+    let (ts, r) = p in (match skip_ws r with
+                        | [] -> Some ts
+                        | _ :: _ -> None)
+  | None -> None
+
+(** val frame : nat -> bytes -> bytes list * bool **)
+
+let rec frame fuel b =
+  match fuel with
+  | O -> ([], false)
+  | S f ->
+    (match skip_ws b with
+     | [] -> ([], true)
+     | z0 :: l ->
+       let b' = z0 :: l in
+       (match g_value (S (length b')) b' with
+        | Some r -> let (vs, ok) = frame f r in (((consumed b' r) :: vs), ok)
+        | None -> ([], false)))
